@@ -5,187 +5,1011 @@ import ast
 
 import sympy as sp
 
-from ..core import src, AnalysisError, parent, guards_of, same_expr
+from ..core import src, parent, guards_of
 from .. import units as U
 from .. import ispace as I
-from ..ispace import IS, Ctx, OTHER, eta_grid_tag, layout_param, G, L
+from ..ispace import IS, Ctx, eta_grid_tag, layout_param, L
 from ..npsym import NpSym
-from ..symx import alg_equal, Undecided
+from ..symx import Undecided
 
 CLASSES = [(U.NORMS, "l2", "l2NormSquared"), (U.NORMS, "l1", "l1Norm"), (U.NORMS, "nParticles", "getN"),
            (U.ENERGY, "KineticEnergy", "getKE")]
 
 
+# ---------------------------------------------------------------------------------------------------------------------
+# Engine W: the constructor of a diagnostic class as a separable weight tensor (abstract interpretation)
+#
+# values: scalars (sympy), 1-D vectors tied to a dimension d in the global frame (position k = global index) or in the local
+# frame (position k = global index start_d + k), given region-wise (one formula for all positions, or first / interior /
+# last), windows [start_d:end_d) of global vectors, (r, v) outer products, shape lists and tensors {axis -> vector}.
+# The coordinates are uninterpreted functions x_d(k) (theta and z uniform: x_d(k) = a_d + k h_d); the axes carrying r and
+# v stay symbolic, only their order is fixed per configuration.  Helper functions of the module(s) are interpreted with the
+# abstract arguments.  No repository code is run: every step is a symbolic rewriting of the expression tree.
+# ---------------------------------------------------------------------------------------------------------------------
+class WUndecided(Exception):
+    pass
+
+
+class WViolation(Exception):
+    def __init__(self, msg, rule="C-axis-placement"):
+        super().__init__(msg)
+        self.rule = rule
+
+
+_K = sp.Symbol("k", integer=True)
+_XF = {d: sp.Function(f"x{d}") for d in range(4)}
+_N = {d: sp.Symbol(f"N{d}", integer=True, positive=True) for d in range(4)}
+_NL = {d: sp.Symbol(f"n{d}", integer=True, positive=True) for d in range(4)}
+_S = {d: sp.Symbol(f"s{d}", integer=True, nonnegative=True) for d in range(4)}
+_A = {d: sp.Symbol(f"a{d}", real=True) for d in (1, 2)}
+_H = {d: sp.Symbol(f"h{d}", positive=True) for d in (1, 2)}
+_DN = {0: "r", 1: "theta", 2: "z", 3: "v"}
+
+
+def _coord(d, k):
+    return _A[d] + k * _H[d] if d in (1, 2) else _XF[d](k)
+
+
+def _same(a, b):
+    try:
+        return sp.simplify(sp.expand(a - b)) == 0
+    except Exception:
+        return False
+
+
+class WVec:
+    """shape: ('u', f) | ('e', first, fmid, last) | ('w', WVec in the global frame)"""
+
+    def __init__(self, d, frame, n, shape):
+        self.d, self.frame, self.n, self.shape = d, frame, n, shape
+
+    def regions(self):
+        k = self.shape[0]
+        if k == "u":
+            f = self.shape[1]
+            return f(sp.Integer(0)), f, f(self.n - 1)
+        if k == "e":
+            return self.shape[1], self.shape[2], self.shape[3]
+        raise WUndecided("regions of a window")
+
+    def localised(self):
+        """a window of a one-formula global vector as a vector of the local frame"""
+        if self.shape[0] != "w":
+            return self
+        g = self.shape[1]
+        if g.shape[0] != "u":
+            raise WUndecided("a window of a region-wise vector is combined with a vector built from local points")
+        f, s = g.shape[1], _S[self.d]
+        return WVec(self.d, "L", self.n, ("u", lambda k, f=f, s=s: f(s + k)))
+
+
+class WAxis:
+    def __init__(self, d):
+        self.d = d
+
+
+class WPlaced:
+    def __init__(self, vec, pos):
+        self.vec, self.pos = vec, pos
+
+
+class WOuter:
+    def __init__(self, rows, cols):
+        self.rows, self.cols = rows, cols
+
+
+class WShape:
+    def __init__(self, ndims, entries=None):
+        self.ndims, self.entries = ndims, dict(entries or {})
+
+
+class WEmpty:
+    def __init__(self, shape):
+        self.shape = shape
+        self.filled = None
+
+
+class WTensor:
+    def __init__(self, ndims, factors, scalar=sp.Integer(1)):
+        self.ndims, self.factors, self.scalar = ndims, dict(factors), scalar
+
+
+class WFresh:
+    """np.empty(n) / np.zeros(n) being filled by slice stores"""
+
+    def __init__(self, n, zero):
+        self.n, self.zero = n, zero
+        self.first = self.last = sp.Integer(0) if zero else None
+        self.mid = (lambda k: sp.Integer(0)) if zero else None
+        self.d = self.frame = None
+
+    def vec(self):
+        if self.first is None or self.mid is None or self.last is None:
+            raise WUndecided("an array created empty is used before all of its parts are assigned")
+        return WVec(self.d, self.frame or "G", self.n, ("e", self.first, self.mid, self.last))
+
+
+class WFn:
+    def __init__(self, name, node=None, env=None):
+        self.name, self.node, self.env = name, node, env
+
+
+class WObj:
+    def __init__(self, kind):
+        self.kind = kind
+
+
+class WRet(Exception):
+    def __init__(self, v):
+        self.v = v
+
+
+def _vop(op, a, b):
+    """element-wise binary operation on scalars / vectors / placed vectors / tensors"""
+    def sc(x, y):
+        if isinstance(op, ast.Add):
+            return x + y
+        if isinstance(op, ast.Sub):
+            return x - y
+        if isinstance(op, ast.Mult):
+            return x * y
+        if isinstance(op, ast.Div):
+            return x / y
+        if isinstance(op, ast.Pow):
+            return x ** y
+        raise WUndecided("operator")
+    if isinstance(a, WFresh):
+        a = a.vec()
+    if isinstance(b, WFresh):
+        b = b.vec()
+    if isinstance(a, sp.Basic) and isinstance(b, sp.Basic):
+        return sc(a, b)
+    if isinstance(a, WTensor) or isinstance(b, WTensor):
+        if not isinstance(op, ast.Mult):
+            raise WUndecided("tensors are only multiplied")
+        if isinstance(a, sp.Basic) or isinstance(b, sp.Basic):
+            t, c = (a, b) if isinstance(a, WTensor) else (b, a)
+            return WTensor(t.ndims, t.factors, t.scalar * c)
+        if not (isinstance(a, WTensor) and isinstance(b, WTensor)) or a.ndims != b.ndims:
+            raise WUndecided("product of a tensor with something else")
+        fac = dict(a.factors)
+        for k, v in b.factors.items():
+            fac[k] = _vop(op, fac[k], v) if k in fac else v
+        return WTensor(a.ndims, fac, a.scalar * b.scalar)
+    if isinstance(a, WPlaced) or isinstance(b, WPlaced):
+        if isinstance(a, sp.Basic) or isinstance(b, sp.Basic):
+            p_, c = (a, b) if isinstance(a, WPlaced) else (b, a)
+            return WPlaced(_vop(op, p_.vec, c) if p_ is a else _vop(op, c, p_.vec), p_.pos)
+        if not (isinstance(a, WPlaced) and isinstance(b, WPlaced)):
+            raise WUndecided("broadcast of a placed vector with an unplaced one")
+        if a.pos == b.pos:
+            return WPlaced(_vop(op, a.vec, b.vec), a.pos)
+        if not isinstance(op, ast.Mult):
+            raise WUndecided("outer combination other than a product")
+        return WOuter(a.vec, b.vec) if a.pos == 0 else WOuter(b.vec, a.vec)
+    if isinstance(a, WOuter) or isinstance(b, WOuter):
+        raise WUndecided("arithmetic on an outer product")
+    if isinstance(a, WVec) and isinstance(b, WVec):
+        if a.frame != b.frame or (a.d is not None and b.d is not None and a.d != b.d):
+            raise WUndecided(f"vectors of different dimensions/frames combined ({_DN.get(a.d)} {a.frame}, {_DN.get(b.d)} {b.frame})")
+        if not _same(a.n, b.n):
+            raise WUndecided(f"vectors of lengths {a.n} and {b.n} combined")
+        d = a.d if a.d is not None else b.d
+        if a.shape[0] == "w" and b.shape[0] == "w":
+            return WVec(d, "L", a.n, ("w", _vop(op, a.shape[1], b.shape[1])))
+        a, b = a.localised(), b.localised()
+        if a.shape[0] == "u" and b.shape[0] == "u":
+            fa, fb = a.shape[1], b.shape[1]
+            return WVec(d, a.frame, a.n, ("u", lambda k: sc(fa(k), fb(k))))
+        (a0, am, a1), (b0, bm, b1) = a.regions(), b.regions()
+        return WVec(d, a.frame, a.n, ("e", sc(a0, b0), (lambda k: sc(am(k), bm(k))), sc(a1, b1)))
+    v, c, left = (a, b, True) if isinstance(a, WVec) else (b, a, False)
+    if not (isinstance(v, WVec) and isinstance(c, sp.Basic)):
+        raise WUndecided(f"operands {type(a).__name__}, {type(b).__name__}")
+
+    def ap(x):
+        return sc(x, c) if left else sc(c, x)
+    if v.shape[0] == "w":
+        return WVec(v.d, "L", v.n, ("w", _vop(op, v.shape[1], c) if left else _vop(op, c, v.shape[1])))
+    if v.shape[0] == "u":
+        f = v.shape[1]
+        return WVec(v.d, v.frame, v.n, ("u", lambda k: ap(f(k))))
+    return WVec(v.d, v.frame, v.n, ("e", ap(v.shape[1]), (lambda k, f=v.shape[2]: ap(f(k))), ap(v.shape[3])))
+
+
+def _vmap(fn, v):
+    one = sp.Integer(1)
+    if isinstance(v, sp.Basic):
+        return fn(v)
+    if isinstance(v, WFresh):
+        v = v.vec()
+    if isinstance(v, WVec):
+        if v.shape[0] == "w":
+            return WVec(v.d, "L", v.n, ("w", _vmap(fn, v.shape[1])))
+        if v.shape[0] == "u":
+            f = v.shape[1]
+            return WVec(v.d, v.frame, v.n, ("u", lambda k: fn(f(k))))
+        return WVec(v.d, v.frame, v.n, ("e", fn(v.shape[1]), (lambda k, f=v.shape[2]: fn(f(k))), fn(v.shape[3])))
+    raise WUndecided("function applied to " + type(v).__name__)
+
+
+class WInterp:
+    def __init__(self, funcs, config, depth=0):
+        self.funcs, self.config, self.depth = funcs, config, depth
+        self.attrs = {}
+
+    # ---------------------------------------------------------------- expressions
+    def const_int(self, v):
+        return int(v) if isinstance(v, sp.Basic) and v.is_Integer else None
+
+    def ev(self, e, env):
+        if isinstance(e, ast.Constant):
+            if e.value is None:
+                return None
+            if isinstance(e.value, bool):
+                return e.value
+            if isinstance(e.value, int):
+                return sp.Integer(e.value)
+            if isinstance(e.value, float):
+                return sp.nsimplify(e.value, rational=True)
+            raise WUndecided(f"constant {e.value!r}")
+        if isinstance(e, ast.Name):
+            if e.id in env:
+                return env[e.id]
+            if e.id in self.funcs:
+                return WFn(e.id, self.funcs[e.id])
+            raise WUndecided(f"unknown name `{e.id}`")
+        if isinstance(e, ast.Lambda):
+            return WFn("<lambda>", e, dict(env))
+        if isinstance(e, ast.Attribute):
+            s_ = src(e)
+            if s_ in ("np.square", "numpy.square"):
+                return WFn("square")
+            if s_ in ("np.pi", "math.pi"):
+                return sp.pi
+            base = self.ev(e.value, env)
+            if isinstance(base, WObj) and base.kind == "self":
+                if e.attr in self.attrs:
+                    return self.attrs[e.attr]
+                raise WUndecided(f"attribute `{s_}` read before it is assigned")
+            if isinstance(base, WObj) and base.kind == "layout":
+                if e.attr == "ndims":
+                    return sp.Integer(self.config["ndims"])
+                if e.attr in ("inv_dims_order", "starts", "ends", "shape", "name"):
+                    return WObj("layout." + e.attr)
+                raise WUndecided(f"layout attribute `{e.attr}`")
+            if isinstance(base, WFresh) and e.attr in ("size",):
+                return base.n
+            if isinstance(base, WFresh):
+                base = base.vec()
+            if isinstance(base, WVec):
+                if e.attr == "size":
+                    return base.n
+                if e.attr == "shape":
+                    return (base.n,)
+                if e.attr == "flat":
+                    return base
+            if isinstance(base, WOuter) and e.attr == "flat":
+                return base
+            if isinstance(base, WEmpty) and e.attr == "flat":
+                return base
+            raise WUndecided(f"attribute `{s_[:40]}`")
+        if isinstance(e, ast.BinOp):
+            a, b = self.ev(e.left, env), self.ev(e.right, env)
+            if isinstance(a, list) and isinstance(e.op, ast.Mult) and self.const_int(b) is not None and len(a) == 1 and a[0] == 1:
+                return WShape(self.const_int(b))
+            if isinstance(b, list) and isinstance(e.op, ast.Mult) and self.const_int(a) is not None and len(b) == 1 and b[0] == 1:
+                return WShape(self.const_int(a))
+            if a is None or b is None or isinstance(a, (bool, list, tuple)) or isinstance(b, (bool, list, tuple)):
+                raise WUndecided(f"operands of `{src(e)[:40]}`")
+            return _vop(e.op, a, b)
+        if isinstance(e, ast.UnaryOp):
+            v = self.ev(e.operand, env)
+            if isinstance(e.op, ast.USub):
+                return _vop(ast.Mult(), sp.Integer(-1), v)
+            if isinstance(e.op, ast.UAdd):
+                return v
+            if isinstance(e.op, ast.Not):
+                t = self.truth(v)
+                return not t
+            raise WUndecided("unary operator")
+        if isinstance(e, (ast.List, ast.Tuple)):
+            if any(isinstance(x, ast.Starred) for x in e.elts):
+                return self.concat(e, env)
+            vals = [self.ev(x, env) for x in e.elts]
+            if isinstance(e, ast.Tuple):
+                return tuple(vals)
+            if vals and all(isinstance(v, sp.Basic) and v == 1 for v in vals):
+                return WShape(len(vals)) if len(vals) > 1 else [1]
+            return vals
+        if isinstance(e, ast.Compare) and len(e.ops) == 1:
+            return self.compare(e, env)
+        if isinstance(e, ast.BoolOp):
+            vals = [self.truth(self.ev(v, env)) for v in e.values]
+            return all(vals) if isinstance(e.op, ast.And) else any(vals)
+        if isinstance(e, ast.IfExp):
+            return self.ev(e.body if self.truth(self.ev(e.test, env)) else e.orelse, env)
+        if isinstance(e, ast.Subscript):
+            return self.subscript(e, env)
+        if isinstance(e, ast.Call):
+            return self.call(e, env)
+        raise WUndecided(f"expression `{src(e)[:40]}`")
+
+    def truth(self, v):
+        if isinstance(v, bool):
+            return v
+        if v is None:
+            return False
+        raise WUndecided("a condition that does not follow from the configuration")
+
+    def compare(self, e, env):
+        op = e.ops[0]
+        a, b = self.ev(e.left, env), self.ev(e.comparators[0], env)
+        if isinstance(op, (ast.Is, ast.IsNot)):
+            if b is not None:
+                raise WUndecided("identity test")
+            r = a is None
+            return r if isinstance(op, ast.Is) else not r
+        if isinstance(a, WAxis) and isinstance(b, WAxis) and {a.d, b.d} == {0, 3} and isinstance(op, (ast.Lt, ast.Gt, ast.LtE, ast.GtE)):
+            r_first = self.config["order"] == "rv"
+            less = r_first if a.d == 0 else not r_first
+            return less if isinstance(op, (ast.Lt, ast.LtE)) else not less
+        if isinstance(a, sp.Basic) and isinstance(b, sp.Basic):
+            d_ = sp.simplify(a - b)
+            if d_.is_number:
+                return {ast.Eq: d_ == 0, ast.NotEq: d_ != 0, ast.Lt: d_ < 0, ast.LtE: d_ <= 0, ast.Gt: d_ > 0, ast.GtE: d_ >= 0}[type(op)]
+        raise WUndecided(f"comparison `{src(e)[:40]}`")
+
+    def concat(self, e, env):
+        """[a, *mid, b] -> region-wise vector"""
+        el = e.elts
+        if not (len(el) == 3 and isinstance(el[1], ast.Starred) and not isinstance(el[0], ast.Starred) and not isinstance(el[2], ast.Starred)):
+            raise WUndecided(f"list display `{src(e)[:40]}`")
+        a, m, b = self.ev(el[0], env), self.ev(el[1].value, env), self.ev(el[2], env)
+        if isinstance(m, WVec):
+            m = m.localised() if m.shape[0] == "w" else m
+        if not (isinstance(a, sp.Basic) and isinstance(b, sp.Basic) and isinstance(m, WVec) and m.shape[0] == "u"):
+            raise WUndecided(f"list display `{src(e)[:40]}`")
+        f = m.shape[1]
+        return WVec(m.d, m.frame, m.n + 2, ("e", a, (lambda k: f(k - 1)), b))
+
+    def slice_bounds(self, sl, env):
+        if sl.step is not None:
+            raise WUndecided("strided slice")
+        lo = self.ev(sl.lower, env) if sl.lower is not None else None
+        hi = self.ev(sl.upper, env) if sl.upper is not None else None
+        return lo, hi
+
+    def subscript(self, e, env):
+        base = self.ev(e.value, env)
+        if isinstance(base, WFresh):
+            base = base.vec()
+        if isinstance(base, WObj):
+            idx = self.ev(e.slice, env) if not isinstance(e.slice, ast.Slice) else None
+            if base.kind == "eta_grid":
+                c = self.const_int(idx)
+                if c is None or c not in range(4):
+                    raise WUndecided(f"`{src(e)[:40]}`")
+                if c == 3 and self.config["ndims"] == 3:
+                    raise WUndecided("eta_grid[3] of a three-dimensional grid")
+                return WVec(c, "G", _N[c], ("u", lambda k, c=c: _coord(c, k)))
+            if base.kind == "layout.inv_dims_order":
+                c = self.const_int(idx)
+                if c is None:
+                    raise WUndecided(f"`{src(e)[:40]}`")
+                return WAxis(c)
+            if base.kind in ("layout.starts", "layout.ends", "layout.shape"):
+                if not isinstance(idx, WAxis):
+                    raise WUndecided(f"`{src(e)[:50]}` is not subscripted by the axis of a dimension (engine C decides the sort)")
+                return {"layout.starts": _S[idx.d], "layout.ends": _S[idx.d] + _NL[idx.d], "layout.shape": _NL[idx.d]}[base.kind]
+            raise WUndecided(f"`{src(e)[:40]}`")
+        if isinstance(base, tuple):
+            c = self.const_int(self.ev(e.slice, env))
+            if c is None:
+                raise WUndecided("tuple index")
+            return base[c]
+        if isinstance(base, WVec):
+            sl = e.slice
+            if isinstance(sl, ast.Tuple):
+                kinds = ["s" if (isinstance(x, ast.Slice) and x.lower is None and x.upper is None and x.step is None) else
+                         "n" if (isinstance(x, ast.Constant) and x.value is None) or src(x) == "np.newaxis" else "?" for x in sl.elts]
+                if kinds == ["s", "n"]:
+                    return WPlaced(base, 0)
+                if kinds == ["n", "s"]:
+                    return WPlaced(base, 1)
+                raise WUndecided(f"index `{src(e)[:40]}`")
+            if isinstance(sl, ast.Slice):
+                lo, hi = self.slice_bounds(sl, env)
+                return self.vslice(base, lo, hi, e)
+            i = self.ev(sl, env)
+            c = self.const_int(i)
+            if c is None:
+                raise WUndecided(f"index `{src(e)[:40]}`")
+            return self.velem(base, c)
+        raise WUndecided(f"subscript `{src(e)[:40]}`")
+
+    def velem(self, v, c):
+        if v.shape[0] == "w":
+            v = v.localised()
+        if v.shape[0] == "u":
+            return v.shape[1](sp.Integer(c) if c >= 0 else v.n + c)
+        if c == 0:
+            return v.shape[1]
+        if c == -1:
+            return v.shape[3]
+        raise WUndecided("element of a region-wise vector")
+
+    def vslice(self, v, lo, hi, e):
+        a, b = (self.const_int(lo) if lo is not None else 0), (self.const_int(hi) if hi is not None else 0)
+        if a is not None and b is not None and a >= 0 and b <= 0:
+            if a == 0 and b == 0:
+                return v
+            if v.shape[0] == "w":
+                v = v.localised()
+            if v.shape[0] != "u":
+                raise WUndecided("constant slice of a region-wise vector")
+            f = v.shape[1]
+            return WVec(v.d, v.frame, v.n + b - a, ("u", lambda k: f(k + a)))
+        for d in range(4):
+            if lo is not None and hi is not None and _same(lo, _S[d]) and _same(hi, _S[d] + _NL[d]):
+                if v.frame != "G":
+                    raise WUndecided("window of a vector that is already local")
+                if v.d is None:
+                    raise WUndecided("window of a vector that is not tied to a dimension")
+                if v.d != d:
+                    raise WViolation(f"`{src(e)[:70]}` cuts a table over {_DN.get(v.d)} with the block bounds of {_DN[d]}", "C-window")
+                if not _same(v.n, _N[d]):
+                    raise WViolation(f"`{src(e)[:70]}` cuts a vector of length {v.n} with the block bounds of the {_N[d]} grid points: "
+                                     "the entries are shifted against the points", "C-window")
+                return WVec(d, "L", _NL[d], ("w", v))
+            if lo is None and hi is not None and _same(hi, _NL[d]) and v.frame == "G":
+                raise WViolation(f"`{src(e)[:70]}` takes the first n_local entries of the global table: these belong to the first block, "
+                                 "not to this process's block [start:end)", "C-window")
+        raise WUndecided(f"slice `{src(e)[:50]}`")
+
+    def call(self, e, env):
+        f = src(e.func)
+        args = [self.ev(a, env) for a in e.args]
+        kw = {k.arg: self.ev(k.value, env) for k in e.keywords}
+        if f in ("np.array", "np.asarray", "numpy.array") and len(args) == 1 and isinstance(args[0], (WVec, WFresh)):
+            return args[0]
+        if f in ("np.empty", "np.zeros", "np.ndarray") and args:
+            a0 = args[0]
+            if isinstance(a0, tuple) and len(a0) == 1:
+                a0 = a0[0]
+            if isinstance(a0, WShape):
+                return WEmpty(a0)
+            if isinstance(a0, sp.Basic):
+                return WFresh(a0, f == "np.zeros")
+            raise WUndecided(f"`{src(e)[:40]}`")
+        if f in ("np.empty_like", "np.zeros_like") and args and isinstance(args[0], (WVec, WFresh)):
+            return WFresh(args[0].n, f == "np.zeros_like")
+        if f in ("np.diff",) and len(args) == 1 and isinstance(args[0], WVec) and not kw:
+            v = args[0]
+            return _vop(ast.Sub(), self.vslice(v, sp.Integer(1), None, e), self.vslice(v, None, sp.Integer(-1), e))
+        if f in ("np.square",) and len(args) == 1:
+            return _vmap(lambda x: x ** 2, args[0])
+        if f in ("np.outer", "np.multiply.outer") and len(args) == 2 and all(isinstance(a, (WVec, WFresh)) for a in args):
+            return WOuter(*[a.vec() if isinstance(a, WFresh) else a for a in args])
+        if f == "len" and len(args) == 1 and isinstance(args[0], (WVec, WFresh)):
+            return args[0].n
+        if isinstance(e.func, ast.Attribute) and e.func.attr in ("reshape",):
+            base = self.ev(e.func.value, env)
+            if isinstance(base, WFresh):
+                base = base.vec()
+            sh = args[0] if len(args) == 1 else None
+            if isinstance(base, WVec) and isinstance(sh, WShape):
+                nz = {k: v for k, v in sh.entries.items()}
+                if len(nz) == 1:
+                    (k, v), = nz.items()
+                    if not _same(v, base.n):
+                        raise WUndecided("reshape to a different size")
+                    return WTensor(sh.ndims, {k: base})
+            raise WUndecided(f"`{src(e)[:50]}`")
+        if isinstance(e.func, ast.Attribute) and e.func.attr == "copy" and not args:
+            return self.ev(e.func.value, env)
+        fv = None
+        try:
+            fv = self.ev(e.func, env)
+        except WUndecided:
+            pass
+        if isinstance(fv, WFn):
+            return self.apply(fv, args, kw)
+        raise WUndecided(f"call `{src(e)[:50]}`")
+
+    def apply(self, fv, args, kw):
+        if fv.name == "square":
+            return _vmap(lambda x: x ** 2, args[0])
+        if fv.node is None or self.depth > 6:
+            raise WUndecided(f"call of `{fv.name}`")
+        if isinstance(fv.node, ast.Lambda):
+            a = fv.node.args
+            if len(a.args) != len(args) or kw:
+                raise WUndecided("lambda arity")
+            env = dict(fv.env or {})
+            env.update({x.arg: v for x, v in zip(a.args, args)})
+            return self.ev(fv.node.body, env)
+        fn = fv.node
+        formals = [x.arg for x in fn.args.args]
+        if formals and formals[0] == "self":
+            raise WUndecided("method call")
+        if len(args) > len(formals) or any(k not in formals for k in kw):
+            raise WUndecided(f"arguments of `{fv.name}`")
+        env = dict(zip(formals, args))
+        env.update(kw)
+        for f_, d_ in zip(formals[len(formals) - len(fn.args.defaults):], fn.args.defaults):
+            if f_ not in env:
+                env[f_] = self.ev(d_, {})
+        if any(f_ not in env for f_ in formals):
+            raise WUndecided(f"arguments of `{fv.name}`")
+        sub = WInterp(self.funcs, self.config, self.depth + 1)
+        sub.attrs = self.attrs
+        try:
+            sub.block(fn.body, env)
+        except WRet as r:
+            return r.v
+        return None
+
+    # ---------------------------------------------------------------- statements
+    def block(self, stmts, env):
+        for st in stmts:
+            self.stmt(st, env)
+
+    def stmt(self, st, env):
+        if isinstance(st, (ast.Assert, ast.Pass, ast.Import, ast.ImportFrom)):
+            return
+        if isinstance(st, ast.Expr):
+            if isinstance(st.value, ast.Constant):
+                return
+            raise WUndecided(f"statement `{src(st)[:40]}`")
+        if isinstance(st, ast.Return):
+            raise WRet(self.ev(st.value, env) if st.value is not None else None)
+        if isinstance(st, ast.If):
+            self.block(st.body if self.truth(self.ev(st.test, env)) else st.orelse, env)
+            return
+        if isinstance(st, ast.Assign):
+            v = self.ev(st.value, env)
+            for t in st.targets:
+                self.store(t, v, env, st)
+            return
+        if isinstance(st, ast.AnnAssign) and st.value is not None:
+            self.store(st.target, self.ev(st.value, env), env, st)
+            return
+        if isinstance(st, ast.AugAssign):
+            t = st.target
+            if isinstance(t, ast.Subscript):
+                base = self.ev(t.value, env)
+                if isinstance(base, WFresh) and isinstance(st.op, ast.Add):
+                    self.fresh_store(base, t, self.ev(st.value, env), env, add=True)
+                    return
+                raise WUndecided(f"`{src(st)[:40]}`")
+            cur = self.ev(ast.Name(id=t.id, ctx=ast.Load()) if isinstance(t, ast.Name) else t, env)
+            self.store(t, _vop(st.op, cur, self.ev(st.value, env)), env, st)
+            return
+        raise WUndecided(f"statement `{src(st)[:40]}`")
+
+    def fresh_store(self, fr, t, val, env, add=False):
+        sl = t.slice
+        if isinstance(val, WFresh):
+            val = val.vec()
+        if isinstance(val, WVec) and val.shape[0] == "w":
+            val = val.localised()
+
+        def comb(old, new):
+            return new if not add else (old + new)
+        if isinstance(val, WVec):
+            fr.d, fr.frame = (val.d if fr.d is None else fr.d), (val.frame if fr.frame is None else fr.frame)
+        if isinstance(sl, ast.Slice):
+            lo, hi = self.slice_bounds(sl, env)
+            a, b = (self.const_int(lo) if lo is not None else 0), (self.const_int(hi) if hi is not None else 0)
+            if a is None or b is None or a not in (0, 1) or b not in (0, -1):
+                raise WUndecided(f"store into `{src(t)[:40]}`")
+            if isinstance(val, WVec):
+                if val.shape[0] != "u" or not _same(val.n, fr.n - a + b):
+                    raise WUndecided(f"store into `{src(t)[:40]}`")
+                f = val.shape[1]
+                g = (lambda k: f(k - a))
+            elif isinstance(val, sp.Basic):
+                g = (lambda k: val)
+            else:
+                raise WUndecided(f"store into `{src(t)[:40]}`")
+            if add and (fr.mid is None):
+                raise WUndecided("accumulation into an uninitialised array")
+            old_mid, old_first, old_last = fr.mid, fr.first, fr.last
+            fr.mid = (lambda k: comb(old_mid(k), g(k))) if add else g
+            if a == 0:
+                fr.first = comb(old_first, g(sp.Integer(0))) if add else g(sp.Integer(0))
+            if b == 0:
+                fr.last = comb(old_last, g(fr.n - 1)) if add else g(fr.n - 1)
+            return
+        c = self.const_int(self.ev(sl, env))
+        if c not in (0, -1) or not isinstance(val, sp.Basic):
+            raise WUndecided(f"store into `{src(t)[:40]}`")
+        if c == 0:
+            fr.first = comb(fr.first, val) if add else val
+        else:
+            fr.last = comb(fr.last, val) if add else val
+
+    def store(self, t, v, env, st):
+        if isinstance(t, ast.Name):
+            env[t.id] = v
+            return
+        if isinstance(t, (ast.Tuple, ast.List)):
+            if not isinstance(v, (tuple, list)) or len(v) != len(t.elts):
+                raise WUndecided(f"unpacking `{src(st)[:40]}`")
+            for x, y in zip(t.elts, v):
+                self.store(x, y, env, st)
+            return
+        if isinstance(t, ast.Attribute):
+            if src(t.value) == "self":
+                self.attrs[t.attr] = v
+                env["self." + t.attr] = v
+                return
+            if t.attr == "flat":
+                base = self.ev(t.value, env)
+                if isinstance(base, WEmpty):
+                    self.fill(base, v, st)
+                    return
+            raise WUndecided(f"store `{src(st)[:40]}`")
+        if isinstance(t, ast.Subscript):
+            base = self.ev(t.value, env)
+            if isinstance(base, WShape):
+                k = self.ev(t.slice, env)
+                if not isinstance(k, WAxis) or not isinstance(v, sp.Basic):
+                    raise WUndecided(f"shape entry `{src(st)[:50]}` (not the axis of a dimension)")
+                base.entries[k.d] = v
+                return
+            if isinstance(base, WFresh):
+                self.fresh_store(base, t, v, env)
+                return
+            raise WUndecided(f"store `{src(st)[:40]}`")
+        raise WUndecided(f"store `{src(st)[:40]}`")
+
+    def fill(self, empty, v, st):
+        """C-order fill of np.empty(shape) from a flat iterator"""
+        sh = empty.shape
+        if isinstance(v, WFresh):
+            v = v.vec()
+        if isinstance(v, WVec):
+            if len(sh.entries) != 1:
+                raise WUndecided("a vector fills an array with several long axes")
+            (d, n), = sh.entries.items()
+            if not _same(n, v.n):
+                raise WUndecided("flat fill of a different size")
+            empty.filled = WTensor(sh.ndims, {d: v})
+            return
+        if isinstance(v, WOuter):
+            if sorted(sh.entries) != [0, 3]:
+                raise WUndecided("outer product fills an array whose long axes are not those of r and v")
+            first, second = (0, 3) if self.config["order"] == "rv" else (3, 0)
+            rows, cols = v.rows, v.cols
+            if _same(sh.entries[first], rows.n) and _same(sh.entries[second], cols.n) and rows.d == first and cols.d == second:
+                empty.filled = WTensor(sh.ndims, {first: rows, second: cols})
+                return
+            if not (rows.d == second and cols.d == first and rows.frame == cols.frame == "L"):
+                raise WUndecided("flat fill of an outer product whose factors are not the local r and v vectors")
+            raise WViolation(f"`{src(st)[:80]}`: the outer product (rows over {_DN.get(rows.d)}, columns over {_DN.get(cols.d)}) is written "
+                             f"in C order into an array whose {_DN[first]} axis precedes its {_DN[second]} axis (layouts ordered "
+                             f"{'r before v' if first == 0 else 'v before r'}): the weights are permuted among the (r,v) points "
+                             "(their total is preserved, so a constant field still gives the analytic volume)")
+        raise WUndecided(f"flat fill from {type(v).__name__}")
+
+
+def _w_functions(chk, rel):
+    """module-level functions visible from the unit: its own and those it imports from the sibling module"""
+    out = {}
+    for r in (U.NORMS, U.ENERGY):
+        m = chk.mod(r)
+        for q, f in m.functions().items():
+            if "." not in q and (r == rel or q not in out):
+                out[q] = f
+    return out
+
+
+def _trap(d):
+    x, n = _XF[d], _N[d]
+    h = sp.Rational(1, 2)
+    return (x(1) - x(0)) * h, (lambda k: (x(k + 1) - x(k - 1)) * h), (x(n - 1) - x(n - 2)) * h
+
+
+def _axis_spec(d, cls):
+    t0, tm, t1 = _trap(d)
+    x, n = _XF[d], _N[d]
+    if d == 0:
+        return t0 * x(0), (lambda k: tm(k) * x(k)), t1 * x(n - 1), "trapezoid weight x Jacobian r"
+    if cls == "KineticEnergy":
+        return t0 * x(0) ** 2, (lambda k: tm(k) * x(k) ** 2), t1 * x(n - 1) ** 2, "trapezoid weight x v^2"
+    return t0, tm, t1, "trapezoid weight"
+
+
+def weight_tensor(chk):
+    """engine W on the four constructors, one run per configuration (number of dimensions, order of the r and v axes)"""
+    for rel, cls, meth in CLASSES:
+        q = f"{cls}.__init__"
+        fn = chk.func(rel, q)
+        funcs = _w_functions(chk, rel)
+        configs = [{"ndims": 4, "order": "rv"}, {"ndims": 4, "order": "vr"}] + ([{"ndims": 3, "order": "rv"}] if cls == "l2" else [])
+        for cfg in configs:
+            tag = f"{cls} [{cfg['ndims']}-D" + (f", {'r before v' if cfg['order'] == 'rv' else 'v before r'}]" if cfg["ndims"] == 4 else "]")
+            w = WInterp(funcs, cfg)
+            formals = [a.arg for a in fn.args.args]
+            if len(formals) != 3:
+                chk.ob("F9-weight-tensor", fn, tag, None, "constructor signature changed", file=rel, func=q)
+                continue
+            env = {formals[0]: WObj("self"), formals[1]: WObj("eta_grid"), formals[2]: WObj("layout")}
+            try:
+                try:
+                    w.block(fn.body, env)
+                except WRet:
+                    pass
+            except WUndecided as e:
+                chk.ob("F9-weight-tensor", fn, tag, None, f"the construction of the weights is outside the interpreted fragment: {e}", file=rel, func=q)
+                continue
+            except WViolation as e:
+                chk.ob(e.rule, fn, tag, False, str(e), file=rel, func=q)
+                continue
+            f1, f2 = w.attrs.get("_factor1"), w.attrs.get("_factor2")
+            if isinstance(f1, WEmpty):
+                f1 = f1.filled
+            if not isinstance(f1, WTensor) or not isinstance(f2, sp.Basic):
+                chk.ob("F9-weight-tensor", fn, tag, None, f"self._factor1 / self._factor2 not obtained as a weight tensor and a scalar "
+                       f"({type(f1).__name__}, {type(f2).__name__})", file=rel, func=q)
+                continue
+            # placement: which axes carry weights, and of which dimension
+            want_axes = [0, 3] if cfg["ndims"] == 4 else [0]
+            okp, whyp = True, "the r weights lie on the axis carrying r" + (", the v weights on the axis carrying v" if cfg["ndims"] == 4 else "") + \
+                ", unit extent elsewhere; each is the [start:end) block of its global table"
+            if f1.ndims != cfg["ndims"]:
+                okp, whyp = False, f"the weight array has {f1.ndims} axes for a {cfg['ndims']}-dimensional layout"
+            elif sorted(f1.factors) != want_axes:
+                miss = [_DN[d] for d in want_axes if d not in f1.factors]
+                okp, whyp = False, (f"weights lie on the axes of {[_DN[d] for d in sorted(f1.factors)]}" +
+                                    (f"; the non-uniform dimension(s) {miss} are not weighted" if miss else ""))
+            else:
+                for d, v in f1.factors.items():
+                    if not (isinstance(v, WVec) and v.frame == "L" and v.d == d and _same(v.n, _NL[d])):
+                        okp, whyp = False, (f"the factor on the axis carrying {_DN[d]} is a vector over {_DN.get(getattr(v, 'd', None))} "
+                                            f"({getattr(v, 'frame', '?')} frame, length {getattr(v, 'n', '?')})")
+            chk.ob("C-axis-placement", fn, tag, okp, whyp, file=rel, func=q)
+            if not okp:
+                continue
+            # the factor of each axis against the quadrature rule of the global grid
+            for d in want_axes:
+                v = f1.factors[d]
+                s0, sm, s1, what = _axis_spec(d, cls)
+                rule = "F9-jacobian" if d == 0 else "F9-trapezoid-weights"
+                scal = f1.scalar if d == 0 else sp.Integer(1)
+                if v.shape[0] == "w":
+                    g0, gm, g1 = v.shape[1].regions()
+                    pairs = [("the first point of the grid", g0 * scal, s0), ("an interior point k", gm(_K) * scal, sm(_K)),
+                             ("the last point of the grid", g1 * scal, s1)]
+                    note = ""
+                else:
+                    g0, gm, g1 = v.regions()
+                    s = _S[d]
+                    pairs = [("the first point of a block (global index s)", g0 * scal, sm(s)), ("a point k inside a block", gm(_K) * scal, sm(s + _K)),
+                             ("the last point of a block", g1 * scal, sm(s + _NL[d] - 1))]
+                    note = (" - the weights are built from the points of the local block, so every process treats the ends of its own "
+                            "block as ends of the domain")
+                diff = [(w_, g_, s_) for w_, g_, s_ in pairs if not _same(g_, s_)]
+                ok = not diff
+                chk.ob(rule, fn, f"{tag}: factor on the {_DN[d]} axis", ok,
+                       f"{what} of the global {_DN[d]} grid, cut to the local block" if ok else
+                       f"at {diff[0][0]} the code gives {sp.simplify(diff[0][1])}, the rule ({what}) needs {sp.simplify(diff[0][2])}" +
+                       (note if v.shape[0] != "w" else ""), file=rel, func=q)
+            want2 = _H[1] * _H[2] * (sp.Rational(1, 2) if cls == "KineticEnergy" else 1)
+            ok2 = _same(f2, want2)
+            if not ok2 and not (f2.free_symbols <= {_H[1], _H[2]}):
+                ok2 = None          # written with other quantities (number of points, pi, ...): not compared
+            chk.ob("F9-volume-factor", fn, f"{tag}: _factor2", ok2,
+                   ("1/2 " if cls == "KineticEnergy" else "") + "dq dz (uniform periodic theta and z: rectangle rule)" if ok2 else
+                   f"_factor2 = {sp.simplify(f2)}, expected {want2} (h1, h2 the spacings of theta and z)", file=rel, func=q)
+
+
 def weight_windows(chk):
+    """engine C on the constructors: locals that are typed as arrays over a window are the [start:end) block of the global table
+    (the sort rules C-sort on starts/ends/inv_dims_order come from the engine itself)"""
     for rel, cls, meth in CLASSES:
         fn = chk.func(rel, f"{cls}.__init__")
         env = {"eta_grid": eta_grid_tag(), "layout": layout_param()}
         a = IS(chk, rel, f"{cls}.__init__", fn, env, Ctx(dist_dims=None), {})
         a.run()
-        # local weights are the [start:end) windows of the global trapezoid weights of r and v
         for name, d in (("mydrMult", 0), ("my_r", 0), ("mydvMult", 3), ("my_v", 3)):
             t = a.env.get(name)
-            if t is None or t == OTHER:
-                if name == "my_v" and cls != "KineticEnergy":
-                    continue
-                if name == "mydvMult" and cls == "l2":
-                    # defined under `if layout.ndims == 4`
-                    pass
-            if I.is_arr(t):
-                ok = t[1] == (L(d),)
-                chk.ob("C-window", fn, f"{cls}: {name}", ok, f"`{name}` is the local block of the global {I.DIMNAMES[d]} table" if ok else
-                       f"`{name}` is {I.tname(t)}, not the local block of the {I.DIMNAMES[d]} table", file=rel, func=f"{cls}.__init__")
-        # placement of the (r, v) outer product on the axes idx_r, idx_v
-        flats = [n for n in ast.walk(fn) if isinstance(n, ast.Assign) and src(n.targets[0]) == "self._factor1.flat"]
-        idxr = [n for n in fn.body if isinstance(n, ast.Assign) and src(n.targets[0]) == "idx_r"]
-        okr = bool(idxr) and src(idxr[0].value) == "layout.inv_dims_order[0]"
-        badr = None
-        if idxr and not okr and isinstance(idxr[0].value, ast.Subscript) and src(idxr[0].value.value) in ("layout.inv_dims_order", "layout.dims_order"):
-            badr = f"`{src(idxr[0])}`: idx_r is not the axis carrying dimension 0 (r) in this layout"
-        chk.pat("C-sort", idxr[0] if idxr else fn, f"{cls}: idx_r = layout.inv_dims_order[0]", okr,
-                "the axis carrying r in this layout", badr, file=rel, func=f"{cls}.__init__")
-        n4 = 0
-        for fl in flats:
-            gs = [(src(t).replace(" ", "").replace("(", "").replace(")", ""), pol) for t, pol, k in guards_of(fl)]
-            a2 = IS(_Mute(), rel, f"{cls}.__init__", fn, env, Ctx(dist_dims=None), {})
-            a2.run()
-            a2.chk = chk
-            a2.nobs = 0
-            val = fl.value
-            if isinstance(val, ast.Attribute) and val.attr == "flat":
-                val = val.value
-            t = a2.ev(val)
-            order = None
-            for gtxt, pol in gs:
-                if gtxt == "idx_r<idx_v":
-                    order = "rv" if pol else "vr"
-                if gtxt == "idx_v<idx_r":
-                    order = "vr" if pol else "rv"
-            if I.is_arr(t) and len(t[1]) == 2:
-                n4 += 1
-                want = (L(0), L(3)) if order == "rv" else (L(3), L(0)) if order == "vr" else None
-                ok = want is not None and t[1] == want
-                chk.ob("C-axis-placement", fl, f"{cls}: _factor1.flat [{order or 'unguarded'}]", ok,
-                       f"the outer product is {I.tname(t)} in the branch where the axes are ordered {order}: flat (C-order) filling "
-                       "puts each weight on its own (r,v) point" if ok else
-                       (f"the outer product {I.tname(t)} is written in C order without distinguishing whether the r axis precedes the v "
-                        "axis: in a layout where v precedes r the weights are permuted among the (r,v) points (total preserved)"
-                        if order is None else f"branch `{order}` fills {I.tname(t)}"), file=rel, func=f"{cls}.__init__")
-            elif I.is_arr(t) and len(t[1]) == 1:
-                ok = t[1] == (L(0),)
-                chk.ob("C-axis-placement", fl, f"{cls}: _factor1.flat [3-D]", ok, "only r is weighted for the 3-D potential" if ok else
-                       f"3-D weights are {I.tname(t)}", file=rel, func=f"{cls}.__init__")
-        # shape = [1,..]; shape[idx_r] = mydrMult.size; shape[idx_v] = mydvMult.size
-        t_ = src(fn).replace(" ", "").replace("\n", ";")
-        oks = "shape[idx_r]=mydrMult.size" in t_ and ("shape[idx_v]=mydvMult.size" in t_) and "self._factor1=np.empty(shape)" in t_
-        chk.pat("C-axis-placement", fn, f"{cls}: broadcast shape", oks, "weights live on the r and v axes of the layout, unit extent elsewhere",
-                file=rel, func=f"{cls}.__init__")
-        if cls != "l2" and n4 < 2:
-            chk.ob("C-axis-placement", fn, f"{cls}: two axis orders", False if flats else None,
-                   "the weights are filled in one C order only, whatever the order of the r and v axes in the layout", file=rel,
-                   func=f"{cls}.__init__")
-
-
-class _Mute:
-    functions = set()
-
-    def ob(self, *a, **k):
-        pass
-
-
-def weight_formulas(chk):
-    """trapezoid weights, Jacobian, dq*dz (and v^2/2) as normal forms; sibling agreement"""
-    forms = {}
-    for rel, cls, meth in CLASSES:
-        fn = chk.func(rel, f"{cls}.__init__")
-        x = sp.Function("x")
-        # trapezoid: np.array([d[0]*0.5, *((d[1:]+d[:-1])*0.5), d[-1]*0.5]) with d = x[1:]-x[:-1]
-        for nm, base, dname in (("drMult", "r", "dr"), ("dvMult", "v", "dv")):
-            asg = [n for n in ast.walk(fn) if isinstance(n, ast.Assign) and src(n.targets[0]) == nm]
-            dd = [n for n in ast.walk(fn) if isinstance(n, ast.Assign) and src(n.targets[0]) == dname]
-            if not asg:
-                if nm == "dvMult" and cls == "l2":
-                    continue
-                chk.ob("F9-trapezoid-weights", fn, f"{cls}: {nm}", None, f"`{nm}` not defined under that name: the construction of the "
-                       "trapezoid weights was not recognised", file=rel, func=f"{cls}.__init__")
+            if not I.is_arr(t) or len(t[1]) != 1:
                 continue
-            v = src(asg[0].value).replace(" ", "")
-            want = f"np.array([{dname}[0]*0.5, *(({dname}[1:]+{dname}[:-1])*0.5), {dname}[-1]*0.5])"
-            okd = bool(dd) and src(dd[0].value).replace(" ", "") == f"{base}[1:]-{base}[:-1]"
-            srcs = {"r": "eta_grid[0]", "v": "eta_grid[3]"}
-            bdef = [n for n in ast.walk(fn) if isinstance(n, ast.Assign) and src(n.targets[0]) == base]
-            okb = bool(bdef) and src(bdef[0].value) == srcs[base]
-            ok = same_expr(asg[0].value, want) and okd and okb
-            chk.ob("F9-trapezoid-weights", asg[0], f"{cls}: {nm}", ok,
-                   f"weights of the global {base} grid: [D_0/2, (D_k + D_(k-1))/2, D_last/2]" if ok else
-                   f"`{nm}` = {v} (differences ok={okd}, global grid ok={okb})", file=rel, func=f"{cls}.__init__")
-        t_ = src(fn).replace(" ", "").replace("\n", ";")
-        f2 = [n for n in ast.walk(fn) if isinstance(n, ast.Assign) and src(n.targets[0]) == "self._factor2"]
-        dq, dz = sp.symbols("dq dz")
-        okq = "dq=q[2]-q[1]" in t_ and "dz=z[2]-z[1]" in t_ and "q=eta_grid[1]" in t_ and "z=eta_grid[2]" in t_
-        got = None
-        if f2:
-            try:
-                got = NpSym(env={"dq": dq, "dz": dz}).ev(f2[0].value)
-            except Undecided:
-                got = None
-        want = dq * dz * (sp.Rational(1, 2) if cls == "KineticEnergy" else 1)
-        ok2 = (got is not None and alg_equal(got, want) and okq) if got is not None else None
-        chk.ob("F9-volume-factor", f2[0] if f2 else fn, f"{cls}: _factor2", ok2,
-               ("1/2 " if cls == "KineticEnergy" else "") + "dq dz (uniform periodic theta and z: rectangle rule)" if ok2 else
-               f"_factor2 = {got}, expected {want}; dq/dz definitions ok={okq}", file=rel, func=f"{cls}.__init__")
-        # the r Jacobian and (KE) v^2 inside the outer product
-        fl_nodes = [n.value for n in ast.walk(fn) if isinstance(n, ast.Assign) and src(n.targets[0]) == "self._factor1.flat"]
-        flats = [src(v).replace(" ", "") for v in fl_nodes]
+            w = t[1][0]
+            ok = True if w == L(d) else False if (w is not None and w[0] in ("G", "P", "L", "Gm")) else None
+            chk.ob("C-window", fn, f"{cls}: {name}", ok, f"`{name}` is the local block of the global {I.DIMNAMES[d]} table" if ok else
+                   f"`{name}` is {I.tname(t)}, not the local block [start:end) of the {I.DIMNAMES[d]} table" +
+                   ("" if ok is False else " (window not typed: decided by the weight-tensor rules)"), file=rel, func=f"{cls}.__init__")
 
-        def has_prod(e, *factors):
-            """a product whose operands are exactly `factors` (in any order) occurs in e"""
-            for x in ast.walk(e):
-                if any(same_expr(x, " * ".join(perm)) for perm in __import__("itertools").permutations(factors)):
-                    return True
-            return False
 
-        def names_in(e):
-            return {x.id for x in ast.walk(e) if isinstance(x, ast.Name)}
-        if cls == "KineticEnergy":
-            okj = all(has_prod(f, "mydrMult", "my_r") and has_prod(f, "mydvMult", "my_v ** 2") for f in fl_nodes) and len(flats) == 2
-            what = "w_r r x w_v v^2"
-        elif cls == "l2":
-            okj = sum(has_prod(f, "mydrMult", "my_r") and "mydvMult" in names_in(f) for f in fl_nodes) == 2 and \
-                any(same_expr(f, "mydrMult * my_r") for f in fl_nodes)
-            what = "w_r r x w_v (4-D) / w_r r (3-D)"
-        else:
-            okj = all(has_prod(f, "mydrMult", "my_r") and "mydvMult" in names_in(f) and "my_v" not in names_in(f) for f in fl_nodes) and len(flats) == 2
-            what = "w_r r x w_v"
-        chk.ob("F9-jacobian", fn, f"{cls}: _factor1 integrand weights", okj if flats else None, what if okj else f"weights are {flats}", file=rel,
-               func=f"{cls}.__init__")
-        # integrand of the norm method
+class _Methods2Calls(ast.NodeTransformer):
+    """x.conj() -> conj(x), x.real -> real(x), x.sum() -> np.sum(x): the element-wise model knows the function forms"""
+
+    def visit_Call(self, n):
+        self.generic_visit(n)
+        if isinstance(n.func, ast.Attribute) and n.func.attr in ("conj", "conjugate") and not n.args and not n.keywords:
+            return ast.Call(func=ast.Name(id="conj", ctx=ast.Load()), args=[n.func.value], keywords=[])
+        if isinstance(n.func, ast.Attribute) and n.func.attr == "sum" and not n.args and not n.keywords and src(n.func.value) != "np":
+            return ast.Call(func=ast.Attribute(value=ast.Name(id="np", ctx=ast.Load()), attr="sum", ctx=ast.Load()),
+                            args=[n.func.value], keywords=[])
+        return n
+
+    def visit_Attribute(self, n):
+        self.generic_visit(n)
+        if n.attr in ("real", "imag") and isinstance(n.ctx, ast.Load) and src(n.value) not in ("np", "numpy"):
+            return ast.Call(func=ast.Name(id=n.attr, ctx=ast.Load()), args=[n.value], keywords=[])
+        return n
+
+
+def integrands(chk):
+    """value returned by the norm method, as a formula of the field f = a + i b, the weights and the volume factor"""
+    from ..resolve import inline_locals, expand
+    from ..npsym import SUMR
+    a_, b_ = sp.symbols("a b", real=True)
+    w, F2 = sp.Symbol("w", positive=True), sp.Symbol("F2", positive=True)
+    f_ = a_ + sp.I * b_
+    want_i = {"l2": (a_ ** 2 + b_ ** 2) * w, "l1": sp.Abs(a_) * w, "nParticles": a_ * w, "KineticEnergy": a_ * w}
+    text = {"l2": "|f|^2", "l1": "|Re f|", "nParticles": "Re f", "KineticEnergy": "Re f"}
+    for rel, cls, meth in CLASSES:
         m = chk.func(rel, f"{cls}.{meth}")
-        pts = [n for n in ast.walk(m) if isinstance(n, ast.Assign) and src(n.targets[0]) == "points"]
-        ret = [n for n in ast.walk(m) if isinstance(n, ast.Return)]
+        q = f"{cls}.{meth}"
+        if len(m.args.args) != 2:
+            chk.ob("F9-integrand", m, q, None, "signature changed", file=rel, func=q)
+            continue
         arg = m.args.args[1].arg
-        f_, w = sp.symbols("f w")
-        fbar = sp.Symbol("fbar")
-        n_ = NpSym(env={}, hooks={f"{arg}._f": f_, f"{arg}._f.conj()": fbar, "self._factor1": w,
-                                   f"np.real({arg}._f)": sp.Symbol("Ref"), f"np.abs(np.real({arg}._f))": sp.Symbol("AbsRef"),
-                                   f"np.real({arg}._f * {arg}._f.conj())": sp.Symbol("Abs2"),
-                                   f"np.real({arg}._f.conj() * {arg}._f)": sp.Symbol("Abs2")})
-        want_i = {"l2": sp.Symbol("Abs2") * w, "l1": sp.Symbol("AbsRef") * w, "nParticles": sp.Symbol("Ref") * w,
-                  "KineticEnergy": sp.Symbol("Ref") * w}[cls]
+        rets = [n for n in ast.walk(m) if isinstance(n, ast.Return) and n.value is not None]
+        if len(rets) != 1:
+            chk.ob("F9-integrand", m, q, None, f"{len(rets)} return statements: not recognised", file=rel, func=q)
+            continue
+        e = _Methods2Calls().visit(expand(rets[0].value, inline_locals(m)))
+        ast.fix_missing_locations(e)
+        n_ = NpSym(env={"real": lambda z: sp.re(sp.expand(z)), "imag": lambda z: sp.im(sp.expand(z)), "conj": lambda z: sp.conjugate(z),
+                        "conjugate": lambda z: sp.conjugate(z), "abs": lambda z: sp.Abs(z), "absolute": lambda z: sp.Abs(z)},
+                   hooks={f"{arg}._f": f_, "self._factor1": w, "self._factor2": F2, f"{arg}.getAllData()": f_})
+        try:
+            got = n_.ev(e)
+        except Undecided as ex:
+            chk.ob("F9-integrand", rets[0], q, None, f"returned value outside the extractable fragment: {ex}", file=rel, func=q)
+            continue
+        want = SUMR(want_i[cls], sp.Symbol("axisall")) * F2
+        sums = list(got.atoms(SUMR)) if hasattr(got, "atoms") else []
         oki = False
-        got_i = None
-        if pts:
-            try:
-                got_i = n_.ev(pts[0].value)
-                oki = alg_equal(got_i, want_i)
-            except Undecided as e:
-                got_i = str(e)
-        okr = len(ret) == 1 and same_expr(ret[0].value, "np.sum(points) * self._factor2")
-        oka = any(isinstance(n, ast.Assert) and src(n.test).replace(" ", "") == f"self._layout=={arg}.currentLayout" for n in m.body)
-        chk.ob("F9-integrand", pts[0] if pts else m, f"{cls}.{meth}", oki and okr and oka,
-               {"l2": "|f|^2", "l1": "|Re f|", "nParticles": "Re f", "KineticEnergy": "Re f"}[cls] +
-               " x local weights, summed, x volume factor; refused in any layout other than the one the weights were built for"
-               if oki and okr and oka else f"integrand {got_i}, sum/scale ok={okr}, layout assert ok={oka}", file=rel, func=f"{cls}.{meth}")
+        if len(sums) == 1 and str(sums[0].args[1]) == "axisall":
+            inner = sp.simplify(sp.expand(sums[0].args[0]))
+            rest = sp.simplify(got / sums[0])
+            oki = bool(sp.simplify(inner - sp.expand(want_i[cls])) == 0 and sp.simplify(rest - F2) == 0)
+        elif not sums:
+            oki = None
+        # refused in any layout other than the one the weights were built for
+        cmp_ = [n for n in ast.walk(m) if isinstance(n, ast.Compare) and len(n.ops) == 1 and
+                {src(n.left), src(n.comparators[0])} == {"self._layout", f"{arg}.currentLayout"}]
+        mentions = any(isinstance(n, ast.Attribute) and src(n) == "self._layout" for n in ast.walk(m))
+        oka = True if any(isinstance(parent(c), (ast.Assert, ast.If)) for c in cmp_) else (None if mentions else False)
+        ok = False if (oki is False or oka is False) else None if (oki is None or oka is None) else True
+        if ok:
+            why = text[cls] + " x local weights, summed, x volume factor; refused in any layout other than the one the weights were built for"
+        elif oki is False:
+            why = f"the method returns {got} (f = a + i b, w the weight array, F2 the volume factor); the diagnostic is sum({want_i[cls]}) * F2"
+        elif oka is False:
+            why = ("the method no longer compares the layout of the grid with the layout the weights were built for: in any other layout "
+                   "the weights are applied to the wrong axes (or broadcast)")
+        else:
+            why = f"returned value {got} / layout test not recognised"
+        chk.ob("F9-integrand", rets[0], q, ok, why, file=rel, func=q)
+
+
+def coordinates_read_only(chk):
+    """the constructors (and the helpers that receive eta_grid) only read the coordinate arrays, which every object shares"""
+    from .. import lints
+    seen = 0
+    for rel in (U.NORMS, U.ENERGY):
+        mod = chk.mod(rel)
+        for q, fn in mod.functions().items():
+            if not any(a.arg == "eta_grid" for a in fn.args.args):
+                continue
+            seen += 1
+            muts = lints.shared_state_mutations(fn, lambda s_: s_ == "eta_grid" or s_.startswith("eta_grid["))
+            chk.ob("G2-coordinates-read-only", muts[0][0] if muts else fn, f"{q}: eta_grid", not muts,
+                   "the coordinate arrays are only read (views are not written through)" if not muts else
+                   "; ".join(d for _, d in muts)[:300] + " - eta_grid is shared by the grid and by every object built from it: all "
+                   "of them see the modified coordinates afterwards", file=rel, func=q)
+
+
+# ---------------------------------------------------------------------------------------------------------------------
+# DiagnosticCollector: rows, reductions, square roots, printed columns (three-valued, by structure)
+# ---------------------------------------------------------------------------------------------------------------------
+# row -> (class of the norm object, method, grid the object is built on, layout it is built for, grid handed to the method)
+ROW_SPEC = {1: ("l2", "l2NormSquared", "phi", "v_parallel_2d", "phi"), 2: ("l2", "l2NormSquared", "distribFunc", "v_parallel", "f"),
+            3: ("l1", "l1Norm", "distribFunc", "v_parallel", "f"), 4: ("nParticles", "getN", "distribFunc", "v_parallel", "f"),
+            7: ("KineticEnergy", "getKE", "distribFunc", "v_parallel", "f")}
+ROW_NAME = {0: "time", 1: "squared L2 norm of phi", 2: "squared L2 norm of f", 3: "L1 norm of f", 4: "number of particles",
+            5: "minimum of f", 6: "maximum of f", 7: "kinetic energy"}
+ROW_OP = {1: "MPI.SUM", 2: "MPI.SUM", 3: "MPI.SUM", 4: "MPI.SUM", 5: "MPI.MIN", 6: "MPI.MAX", 7: "MPI.SUM"}
+
+
+def _single_def(fn, name):
+    d = [n for n in ast.walk(fn) if isinstance(n, ast.Assign) and len(n.targets) == 1 and isinstance(n.targets[0], ast.Name)
+         and n.targets[0].id == name]
+    return d[0].value if len(d) == 1 else None
+
+
+def _row_writes(col, table="self.diagnostics"):
+    """{row: (slot source, value node)} for `table[K, slot] = v` with a constant K and for loops
+    `for row, v in enumerate(<tuple>)` / `for row, v in ((K, v), ...)` writing `table[row, slot] = v`; None when a row index
+    is computed some other way"""
+    rows = {}
+
+    def put(k, slot, val):
+        if k in rows:
+            rows[k] = (rows[k][0], rows[k][1], True)
+        else:
+            rows[k] = (src(slot), val, False)
+
+    for n in ast.walk(col):
+        if not (isinstance(n, ast.Assign) and len(n.targets) == 1 and isinstance(n.targets[0], ast.Subscript)
+                and src(n.targets[0].value) == table):
+            continue
+        sl = n.targets[0].slice
+        if not (isinstance(sl, ast.Tuple) and len(sl.elts) == 2):
+            return None
+        k, slot = sl.elts
+        if isinstance(k, ast.Constant) and isinstance(k.value, int):
+            put(k.value, slot, n.value)
+            continue
+        loop = parent(n)
+        if not (isinstance(k, ast.Name) and isinstance(n.value, ast.Name) and isinstance(loop, ast.For) and len(loop.body) == 1
+                and isinstance(loop.target, ast.Tuple) and [src(x) for x in loop.target.elts] == [k.id, n.value.id]):
+            return None
+        it = loop.iter
+        start = 0
+        if isinstance(it, ast.Call) and src(it.func) == "enumerate" and it.args:
+            if len(it.args) > 1 or it.keywords:
+                st_ = it.args[1] if len(it.args) > 1 else it.keywords[0].value
+                if not (isinstance(st_, ast.Constant) and isinstance(st_.value, int)):
+                    return None
+                start = st_.value
+            seq = it.args[0]
+            if isinstance(seq, ast.Name):
+                seq = _single_def(col, seq.id)
+            if not isinstance(seq, (ast.Tuple, ast.List)) or any(isinstance(x, ast.Starred) for x in seq.elts):
+                return None
+            for j, v in enumerate(seq.elts):
+                put(start + j, slot, v)
+            continue
+        if isinstance(it, ast.Name):
+            it = _single_def(col, it.id)
+        if isinstance(it, (ast.Tuple, ast.List)) and all(isinstance(x, (ast.Tuple, ast.List)) and len(x.elts) == 2 and
+                                                           isinstance(x.elts[0], ast.Constant) for x in it.elts):
+            for x in it.elts:
+                put(x.elts[0].value, slot, x.elts[1])
+            continue
+        return None
+    return rows
+
+
+def _ctor_table(init):
+    """attribute -> (class name, grid the eta_grid comes from, layout name) for `self.A = Cls(G.eta_grid, G.getLayout('name'))`"""
+    out = {}
+    for n in ast.walk(init):
+        if isinstance(n, ast.Assign) and len(n.targets) == 1 and isinstance(n.targets[0], ast.Attribute) and \
+                src(n.targets[0].value) == "self" and isinstance(n.value, ast.Call) and isinstance(n.value.func, ast.Name):
+            b = n.value
+            args = list(b.args) + [k.value for k in b.keywords]
+            kw = {k.arg: k.value for k in b.keywords}
+            eg = kw.get("eta_grid", b.args[0] if b.args else None)
+            ly = kw.get("layout", b.args[1] if len(b.args) > 1 else None)
+            if len(args) != 2 or eg is None or ly is None:
+                continue
+            g = src(eg.value) if isinstance(eg, ast.Attribute) and eg.attr == "eta_grid" else None
+            lname, lg = None, None
+            if isinstance(ly, ast.Call) and isinstance(ly.func, ast.Attribute) and ly.func.attr == "getLayout" and len(ly.args) == 1 \
+                    and isinstance(ly.args[0], ast.Constant):
+                lname, lg = ly.args[0].value, src(ly.func.value)
+            out[n.targets[0].attr] = (b.func.id, g, lname, lg, n)
+    return out
 
 
 def collector(chk):
@@ -193,136 +1017,768 @@ def collector(chk):
     red = chk.func(U.DIAG, "DiagnosticCollector.reduce")
     gl = chk.func(U.DIAG, "DiagnosticCollector.getLine")
     init = chk.func(U.DIAG, "DiagnosticCollector.__init__")
-    rows = {}
-    for n in ast.walk(col):
-        if isinstance(n, ast.Assign) and isinstance(n.targets[0], ast.Subscript) and src(n.targets[0].value) == "self.diagnostics":
-            k, slot = n.targets[0].slice.elts
-            if not isinstance(k, ast.Constant):
-                rows = None
-                break
-            rows[k.value] = (src(slot), src(n.value).replace(" ", ""))
-    want = {0: "t", 1: "self.l2_phi_class.l2NormSquared(phi)", 2: "self.l2_grid_class.l2NormSquared(f)", 3: "self.l1class.l1Norm(f)",
-            4: "self.npart.getN(f)", 5: "f.getMin()", 6: "f.getMax()", 7: "self.KEclass.getKE(f)"}
-    ok = None if rows is None else ({k: v[1] for k, v in rows.items()} == want and len({v[0] for v in rows.values()}) == 1)
-    chk.ob("E6-diagnostic-rows", col, "collect: rows 0..7", ok, "the eight documented quantities are written to rows 0..7 of one slot"
-           if ok else (f"rows written: {rows}" if rows is not None else "rows are written through a computed row index: not recognised"),
-           file=U.DIAG, func="DiagnosticCollector.collect")
-    reds = []
-    for c in ast.walk(red):
-        if isinstance(c, ast.Call) and isinstance(c.func, ast.Attribute) and c.func.attr == "Reduce":
-            s_ = c.args[0]
-            row = s_.slice.elts[0].value if isinstance(s_, ast.Subscript) and isinstance(s_.slice, ast.Tuple) and \
-                isinstance(s_.slice.elts[0], ast.Constant) else None
-            op = [src(k.value) for k in c.keywords if k.arg == "op"]
-            root = [src(k.value) for k in c.keywords if k.arg == "root"]
-            reds.append((row, src(c.args[1]), op[0] if op else None, root[0] if root else None))
-    want_r = [(1, "self.l2PhiResult", "MPI.SUM", "0"), (2, "self.l2GridResult", "MPI.SUM", "0"), (3, "self.l1Result", "MPI.SUM", "0"),
-              (4, "self.nPartResult", "MPI.SUM", "0"), (5, "self.min_val", "MPI.MIN", "0"), (6, "self.max_val", "MPI.MAX", "0"),
-              (7, "self.KE_val", "MPI.SUM", "0")]
-    okr = (reds == want_r) if all(r_[0] is not None for r_ in reds) and reds else None
+    F, Q = U.DIAG, "DiagnosticCollector."
+    ctors = _ctor_table(init)
+    cargs = [a.arg for a in col.args.args]              # self, f, phi, t
+    iargs = [a.arg for a in init.args.args]             # self, comm, saveStep, dt, distribFunc, phi
+    role = {}
+    if len(cargs) == 4:
+        role = {cargs[1]: "f", cargs[2]: "phi", cargs[3]: "t"}
+    irole = {}
+    if len(iargs) == 6:
+        irole = {iargs[4]: "distribFunc", iargs[5]: "phi"}
+    # ---- rows written by collect
+    rows = _row_writes(col)
+    if rows is None or not role:
+        chk.ob("E6-diagnostic-rows", col, "collect: rows 0..7", None, "rows are written through a computed row index (or the signature of "
+               "collect changed): not recognised", file=F, func=Q + "collect")
+    else:
+        verdicts = []
+        for k in range(8):
+            if k not in rows:
+                verdicts.append((False, f"row {k} ({ROW_NAME[k]}) is never written: the column keeps the zeros of the allocation"))
+                continue
+            slot, v, twice = rows[k]
+            if twice:
+                verdicts.append((None, f"row {k} is written more than once"))
+                continue
+            scale = None
+            if isinstance(v, ast.BinOp) and isinstance(v.op, (ast.Mult, ast.Div)):
+                for c_, o_ in ((v.left, v.right), (v.right, v.left)):
+                    if isinstance(c_, ast.Constant) and isinstance(c_.value, (int, float)) and isinstance(o_, ast.Call) and \
+                            not (isinstance(v.op, ast.Div) and c_ is v.left):
+                        scale, v = c_.value, o_
+                        break
+            got = None
+            if k == 0:
+                got = ("t",) if isinstance(v, ast.Name) and role.get(v.id) == "t" else ("name", src(v)) if isinstance(v, ast.Name) else None
+                want = ("t",)
+            elif isinstance(v, ast.Call) and isinstance(v.func, ast.Attribute) and len(v.args) + len(v.keywords) <= 1:
+                recv, meth = v.func.value, v.func.attr
+                arg = (v.args + [kw.value for kw in v.keywords] + [None])[0]
+                argr = role.get(arg.id) if isinstance(arg, ast.Name) else None
+                if isinstance(recv, ast.Name) and recv.id in role and arg is None:
+                    got = ("grid", role[recv.id], meth)
+                elif isinstance(recv, ast.Attribute) and src(recv.value) == "self" and recv.attr in ctors and argr:
+                    c_ = ctors[recv.attr]
+                    got = ("norm", c_[0], meth, irole.get(c_[1]), c_[2], irole.get(c_[3]), argr)
+                want = ("grid", "f", {5: "getMin", 6: "getMax"}[k]) if k in (5, 6) else \
+                    ("norm", ROW_SPEC[k][0], ROW_SPEC[k][1], ROW_SPEC[k][2], ROW_SPEC[k][3], ROW_SPEC[k][2], ROW_SPEC[k][4])
+            else:
+                want = None
+            if got is None:
+                verdicts.append((None, f"row {k}: value `{src(rows[k][1])[:60]}` not recognised"))
+            elif got != want:
+                verdicts.append((False, f"row {k} must hold the {ROW_NAME[k]} {want} but is given `{src(rows[k][1])[:70]}` = {got}: "
+                                        "the documented column holds another quantity (or one computed with weights built for another "
+                                        "grid/layout)"))
+            elif scale is not None and scale != 1:
+                verdicts.append((False, f"row {k} ({ROW_NAME[k]}) is stored scaled by {scale}: `{src(rows[k][1])[:70]}` - the local "
+                                        "diagnostic that is summed is no longer the quadrature of the field (a factor belongs into the "
+                                        "norm object, where every user gets it)"))
+            else:
+                verdicts.append((True, ""))
+        slots = {rows[k][0] for k in rows}
+        extra = sorted(k for k in rows if k not in range(8))
+        bad = [m for o, m in verdicts if o is False]
+        und = [m for o, m in verdicts if o is None]
+        if len(slots) > 1:
+            und.append(f"rows are written to different slot expressions {sorted(slots)}")
+        if extra:
+            und.append(f"undocumented rows {extra} are written")
+        ok = False if bad else None if und else True
+        chk.ob("E6-diagnostic-rows", col, "collect: rows 0..7", ok, "the eight documented quantities (norm objects of the documented class, "
+               "built for the layout collect is called in) are written to rows 0..7 of one slot" if ok else "; ".join(bad or und),
+               file=F, func=Q + "collect")
+    # ---- allocation
+    alloc = [n for n in ast.walk(init) if isinstance(n, ast.Assign) and src(n.targets[0]) == "self.diagnostics"]
+    oka, whya = None, "allocation of self.diagnostics not recognised"
+    if len(alloc) == 1 and isinstance(alloc[0].value, ast.Call) and src(alloc[0].value.func) in ("np.zeros", "np.empty", "np.ndarray") \
+            and alloc[0].value.args and isinstance(alloc[0].value.args[0], (ast.List, ast.Tuple)) and len(alloc[0].value.args[0].elts) == 2:
+        r_, s_ = alloc[0].value.args[0].elts
+        if isinstance(r_, ast.Constant) and src(s_) in ("saveStep", "self.saveStep"):
+            oka = r_.value >= 8
+            whya = "8 rows x saveStep slots" if oka else f"only {r_.value} rows are allocated for the 8 documented quantities"
+    chk.ob("E6-diagnostic-rows", alloc[0] if alloc else init, "diagnostics table: rows x slots", oka, whya, file=F, func=Q + "__init__")
+    # ---- reductions
+    reds, und = {}, []
+    calls = [c for c in ast.walk(red) if isinstance(c, ast.Call) and isinstance(c.func, ast.Attribute) and c.func.attr in ("Reduce", "Allreduce")]
+    calls.sort(key=lambda c: (c.lineno, c.col_offset))
+    badr = []
+    for c in calls:
+        b = {}
+        for nm, a_ in zip(("sendbuf", "recvbuf"), c.args):
+            b[nm] = a_
+        for kw in c.keywords:
+            b[kw.arg] = kw.value
+        if len(c.args) > 2:
+            b.setdefault("op", c.args[2])
+        if len(c.args) > 3:
+            b.setdefault("root", c.args[3])
+        s_ = b.get("sendbuf")
+        row = None
+        if isinstance(s_, ast.Subscript) and src(s_.value) == "self.diagnostics":
+            e0 = s_.slice.elts[0] if isinstance(s_.slice, ast.Tuple) else s_.slice
+            rest = s_.slice.elts[1:] if isinstance(s_.slice, ast.Tuple) else []
+            if isinstance(e0, ast.Constant) and isinstance(e0.value, int) and all(src(x) == ":" for x in rest):
+                row = e0.value
+        rb = b.get("recvbuf")
+        if row is None or rb is None or not (isinstance(rb, ast.Attribute) and src(rb.value) == "self"):
+            und.append(f"`{src(c)[:70]}`: row / result array not recognised")
+            continue
+        op = src(b["op"]) if "op" in b else "MPI.SUM"
+        root = src(b["root"]) if "root" in b else "0"
+        if row in reds:
+            badr.append(f"row {row} is reduced twice")
+        reds[row] = (rb.attr, op, root, c)
+    if not calls:
+        und.append("no Reduce call found")
+    if not und:
+        for k in range(1, 8):
+            if k not in reds:
+                badr.append(f"row {k} ({ROW_NAME[k]}) is never reduced: its result array keeps zeros / the local value of one process")
+            elif reds[k][1] != ROW_OP[k]:
+                badr.append(f"row {k} ({ROW_NAME[k]}) is reduced with {reds[k][1]} instead of {ROW_OP[k]}: the reported value is not "
+                            "that of the global field")
+        attrs = [v[0] for v in reds.values()]
+        dup = sorted({a_ for a_ in attrs if attrs.count(a_) > 1})
+        if dup:
+            badr.append(f"several rows are reduced into the same result array {dup}: the later reduction overwrites the earlier one")
+        if 0 in reds:
+            und.append("the time row is reduced as well")
+        if len({v[2] for v in reds.values()}) > 1:
+            badr.append(f"the rows are reduced to different roots {sorted({v[2] for v in reds.values()})}: no process holds the whole line")
+    okr = False if badr else None if und else True
     chk.ob("E6-diagnostic-rows", red, "reduce: op per row", okr, "sums for the four integrals and the energy, MIN/MAX for the extrema, "
-           "each row into its own result array on rank 0" if okr else f"reductions: {reds}", file=U.DIAG, func="DiagnosticCollector.reduce")
-    t = src(red).replace(" ", "").replace("\n", ";")
-    oks = t.count("np.sqrt") == 2 and "self.l2PhiResult=np.sqrt(self.l2PhiResult)" in t and "self.l2GridResult=np.sqrt(self.l2GridResult)" in t
-    last_reduce = max((c.lineno for c in ast.walk(red) if isinstance(c, ast.Call) and isinstance(c.func, ast.Attribute) and c.func.attr == "Reduce"), default=0)
-    sq = [n for n in ast.walk(red) if isinstance(n, ast.Call) and src(n.func) == "np.sqrt"]
-    oks = oks and all(n.lineno > last_reduce for n in sq)
-    chk.ob("E6-diagnostic-rows", red, "sqrt after reduction", oks, "the square root is applied to the two L2 rows only, after the global "
-           "sum of the squared norms" if oks else "square roots are not applied exactly to the two reduced L2 rows", file=U.DIAG,
-           func="DiagnosticCollector.reduce")
-    tg = src(gl).replace(" ", "")
-    okg = "t=self.diagnostics[0,i],l2P=self.l2PhiResult[i],l2G=self.l2GridResult[i],l1=self.l1Result[i],np=self.nPartResult[i],minim=self.min_val[i],maxim=self.max_val[i],ke=self.KE_val[i]" in tg \
-        and [x for x in ("{t:", "{l2P:", "{l2G:", "{l1:", "{np:", "{minim:", "{maxim:", "{ke:") if x in tg] == ["{t:", "{l2P:", "{l2G:", "{l1:", "{np:", "{minim:", "{maxim:", "{ke:"] \
-        and tg.index("{t:") < tg.index("{l2P:") < tg.index("{l2G:") < tg.index("{l1:") < tg.index("{np:") < tg.index("{minim:") < tg.index("{maxim:") < tg.index("{ke:")
-    chk.ob("E6-diagnostic-rows", gl, "getLine: column order", okg, "columns are printed in the documented order from the reduced arrays of slot i"
-           if okg else "printed columns do not match the documented order/arrays", file=U.DIAG, func="DiagnosticCollector.getLine")
-    ti = src(init).replace(" ", "").replace("\n", ";")
-    oki = "self.l2_phi_class=l2(phi.eta_grid,phi.getLayout('v_parallel_2d'))" in ti and ti.count("distribFunc.getLayout('v_parallel')") == 4 \
-        and "self.diagnostics=np.zeros([8,saveStep])" in ti
-    chk.ob("E6-diagnostic-rows", init, "norm objects and their layouts", oki, "potential norm for layout v_parallel_2d, the four "
-           "distribution diagnostics for v_parallel; 8 rows x saveStep slots" if oki else "construction of the norm objects changed",
-           file=U.DIAG, func="DiagnosticCollector.__init__")
+           "each row into its own result array on one root" if okr else "; ".join(badr or und), file=F, func=Q + "reduce")
+    # ---- square roots: on the result arrays of the two L2 rows only, after the sums
+    last_reduce = max((c.lineno for c in calls), default=0)
+    sq, bads, unds = set(), [], []
+    for fn_ in (col, red):
+        for n in ast.walk(fn_):
+            is_sqrt = isinstance(n, ast.Call) and src(n.func) in ("np.sqrt", "sqrt", "math.sqrt") or \
+                (isinstance(n, ast.BinOp) and isinstance(n.op, ast.Pow) and src(n.right) in ("0.5", "1 / 2"))
+            if not is_sqrt:
+                continue
+            arg = n.args[0] if isinstance(n, ast.Call) else n.left
+            st = n
+            while st is not None and not isinstance(st, ast.stmt):
+                st = parent(st)
+            tgt = st.targets[0] if isinstance(st, ast.Assign) and len(st.targets) == 1 else None
+            if tgt is not None and isinstance(tgt, ast.Subscript) and src(tgt.slice) == ":":
+                tgt = tgt.value
+            if fn_ is col or "self.diagnostics" in src(arg):
+                bads.append(f"`{src(st)[:70]}` takes a square root of the local contribution before the global sum: the sum over processes of "
+                            "square roots is not the root of the summed squares")
+            elif isinstance(arg, ast.Attribute) and src(arg.value) == "self" and tgt is not None and src(tgt) == src(arg):
+                if st.lineno <= last_reduce:
+                    bads.append(f"`{src(st)[:70]}` comes before the reduction that fills `{src(arg)}`")
+                else:
+                    sq.add(arg.attr)
+            else:
+                unds.append(f"`{src(st)[:70]}` not recognised")
+    oks, whys = None, ""
+    if 1 in reds and 2 in reds and not und:
+        want = {reds[1][0], reds[2][0]}
+        if bads:
+            oks, whys = False, "; ".join(bads)
+        elif sq - want:
+            oks, whys = False, (f"the square root is applied to {sorted('self.' + x for x in sq - want)}, which hold(s) a quantity that is not a "
+                                "squared norm")
+        elif unds or sq != want:
+            oks, whys = None, "; ".join(unds) or f"square roots found for {sorted(sq)} only (expected the two L2 result arrays {sorted(want)})"
+        else:
+            oks, whys = True, "the square root is applied to the two L2 rows only, after the global sum of the squared norms"
+    else:
+        whys = "the result arrays of the two L2 rows were not identified"
+    chk.ob("E6-diagnostic-rows", red, "sqrt after reduction", oks, whys, file=F, func=Q + "reduce")
+    # ---- printed columns
+    cols = _format_columns(gl)
+    okg, whyg = None, "format call of getLine not recognised"
+    if cols is not None and not und and all(k in reds for k in range(1, 8)) and len(gl.args.args) == 2:
+        i_ = gl.args.args[1].arg
+        want = [f"self.diagnostics[0, {i_}]"] + [f"self.{reds[k][0]}[{i_}]" for k in range(1, 8)]
+        got = [src(c_) for c_ in cols]
+        if got == want:
+            okg, whyg = True, "columns are printed in the documented order from the reduced arrays of slot i"
+        elif sorted(got) == sorted(want):
+            okg, whyg = False, f"the documented columns are printed in another order: {got}"
+        elif any(g.startswith("self.diagnostics[") and not g.startswith("self.diagnostics[0,") for g in got):
+            okg, whyg = False, ("a column is printed from the local table self.diagnostics instead of the reduced array: the line shows the "
+                                f"contribution of one process: {[g for g in got if g.startswith('self.diagnostics[')]}")
+        elif len(got) == len(want) and all(g == w or g.split("[")[0] in {w_.split("[")[0] for w_ in want} for g, w in zip(got, want)):
+            wrong = [(g, w) for g, w in zip(got, want) if g != w]
+            okg, whyg = False, f"columns read the wrong array or slot: {wrong[:3]}"
+        else:
+            whyg = f"printed columns {got} not recognised"
+    chk.ob("E6-diagnostic-rows", gl, "getLine: column order", okg, whyg, file=F, func=Q + "getLine")
+
+
+def _format_columns(gl):
+    """expressions printed by getLine, in order: `'...{a}...{b}'.format(a=..., b=...)`, positional fields, or an f-string"""
+    import string
+    rets = [n for n in ast.walk(gl) if isinstance(n, ast.Return) and n.value is not None]
+    if len(rets) != 1:
+        return None
+    v = rets[0].value
+    if isinstance(v, ast.JoinedStr):
+        return [x.value for x in v.values if isinstance(x, ast.FormattedValue)]
+    if isinstance(v, ast.Call) and isinstance(v.func, ast.Attribute) and v.func.attr == "format":
+        fmt = v.func.value
+        if isinstance(fmt, ast.Name):
+            fmt = _single_def(gl, fmt.id)
+        if not (isinstance(fmt, ast.Constant) and isinstance(fmt.value, str)):
+            return None
+        kws = {k.arg: k.value for k in v.keywords}
+        out, auto = [], 0
+        try:
+            for _, field, _, _ in string.Formatter().parse(fmt.value):
+                if field is None:
+                    continue
+                if field == "":
+                    out.append(v.args[auto])
+                    auto += 1
+                elif field.isdigit():
+                    out.append(v.args[int(field)])
+                elif field in kws:
+                    out.append(kws[field])
+                else:
+                    return None
+        except (ValueError, IndexError):
+            return None
+        return out
+    return None
+
+
+# ---------------------------------------------------------------------------------------------------------------------
+# Grid.getMin / getMax: what every process hands to the reduction, on every path (helpers of the class followed)
+# ---------------------------------------------------------------------------------------------------------------------
+class _NoPaths(Exception):
+    pass
+
+
+def _subst(e, env):
+    """copy of expression e with the names bound in env replaced (one pass: inserted expressions are not revisited)"""
+    import copy
+
+    class T(ast.NodeTransformer):
+        def visit_Name(self, n):
+            if isinstance(n.ctx, ast.Load) and n.id in env:
+                return copy.deepcopy(env[n.id])
+            return n
+
+        def visit_Lambda(self, n):
+            return n
+    return T().visit(copy.deepcopy(e))
+
+
+def _never_none(e):
+    return isinstance(e, (ast.Call, ast.BinOp, ast.Subscript, ast.Tuple, ast.List, ast.Compare, ast.UnaryOp)) or \
+        (isinstance(e, ast.Constant) and e.value is not None) or (isinstance(e, ast.Attribute) and src(e) in ("np.inf", "numpy.inf"))
+
+
+def _fold(t):
+    """truth value of a test when it follows from its form: True / False / None"""
+    if isinstance(t, ast.Constant):
+        return bool(t.value)
+    if isinstance(t, ast.UnaryOp) and isinstance(t.op, ast.Not):
+        v = _fold(t.operand)
+        return None if v is None else not v
+    if isinstance(t, ast.BoolOp):
+        vs = [_fold(v) for v in t.values]
+        if isinstance(t.op, ast.And):
+            return False if any(v is False for v in vs) else True if all(v is True for v in vs) else None
+        return True if any(v is True for v in vs) else False if all(v is False for v in vs) else None
+    if isinstance(t, ast.Compare) and len(t.ops) == 1 and isinstance(t.ops[0], (ast.Is, ast.IsNot)) and \
+            isinstance(t.comparators[0], ast.Constant) and t.comparators[0].value is None:
+        l = t.left
+        v = True if isinstance(l, ast.Constant) and l.value is None else False if _never_none(l) else None
+        return None if v is None else (v if isinstance(t.ops[0], ast.Is) else not v)
+    return None
+
+
+def _first_open_ifexp(e):
+    for n in ast.walk(e):
+        if isinstance(n, ast.IfExp):
+            return n
+    return None
+
+
+def _resolve_ifexp(e):
+    """expression -> list of (conditions, expression) without conditional expressions"""
+    import copy
+    n = _first_open_ifexp(e)
+    if n is None:
+        return [([], e)]
+    out = []
+    v = _fold(n.test)
+    for pol in (True, False):
+        if v is not None and v != pol:
+            continue
+
+        class R(ast.NodeTransformer):
+            def visit_IfExp(self, x, pol=pol):
+                if x is n:
+                    return copy.deepcopy(x.body if pol else x.orelse)
+                return self.generic_visit(x)
+        e2 = R().visit(e) if e is not n else copy.deepcopy(n.body if pol else n.orelse)
+        for cs, e3 in _resolve_ifexp(copy.deepcopy(e2)):
+            out.append((([] if v is not None else [(n.test, pol)]) + cs, e3))
+    return out
+
+
+class _PathWalk:
+    """symbolic paths of a method: the conditions taken (tests with polarity, locals written back), the reduction calls met and
+    the returned expression; loops are opaque (what they assign stays a name); calls of other methods of the class on `self`
+    are followed through their own return paths"""
+
+    def __init__(self, methods, depth=2, cap=96):
+        self.methods, self.depth, self.cap = methods, depth, cap
+
+    def run(self, fn, env=None):
+        paths = []
+        self._block(list(fn.body), dict(env or {}), [], [], paths, fn)
+        for p in paths:
+            if p[3] == "open":
+                p[3] = None
+        return [(c, ev, r) for c, ev, _, r in paths]
+
+    def _finish(self, conds, events, env, ret, paths):
+        paths.append([conds, events, env, ret])
+        if len(paths) > self.cap:
+            raise _NoPaths("too many paths")
+
+    def _expr_alts(self, e, env, fn):
+        """alternatives (conds, events, expr) of evaluating e: names written back, helper calls followed, conditional
+        expressions split"""
+        e = _subst(e, env)
+        alts = [([], [], e)]
+        # helper call on self at the top of the expression
+        if isinstance(e, ast.Call) and isinstance(e.func, ast.Attribute) and src(e.func.value) == "self" and \
+                e.func.attr in self.methods and self.depth > 0 and self.methods[e.func.attr] is not fn:
+            callee = self.methods[e.func.attr]
+            formals = [a.arg for a in callee.args.args][1:]
+            if len(e.args) > len(formals) or any(k.arg not in formals for k in e.keywords):
+                raise _NoPaths(f"call `{src(e)[:50]}` does not fit the helper's signature")
+            benv = dict(zip(formals, e.args))
+            benv.update({k.arg: k.value for k in e.keywords})
+            defaults = callee.args.defaults
+            for f_, d_ in zip(formals[len(formals) - len(defaults):], defaults):
+                benv.setdefault(f_, d_)
+            if any(f_ not in benv for f_ in formals):
+                raise _NoPaths(f"call `{src(e)[:50]}` does not bind every parameter")
+            sub = _PathWalk(self.methods, self.depth - 1, self.cap).run(callee, benv)
+            alts = [(c, ev, r if r is not None else ast.Constant(value=None)) for c, ev, r in sub]
+            return alts
+        out = []
+        for cs, e2 in _resolve_ifexp(e):
+            out.append((cs, [], e2))
+        return out
+
+    def _events(self, e):
+        return [n for n in ast.walk(e) if isinstance(n, ast.Call) and isinstance(n.func, ast.Attribute)
+                and n.func.attr in ("reduce", "allreduce", "Reduce", "Allreduce")]
+
+    def _block(self, stmts, env, conds, events, paths, fn):
+        if not stmts:
+            self._finish(conds, events, env, "open", paths)
+            return
+        st, rest = stmts[0], stmts[1:]
+        if isinstance(st, ast.Return):
+            if st.value is None:
+                self._finish(conds, events, env, None, paths)
+                return
+            for cs, ev, e in self._expr_alts(st.value, env, fn):
+                self._finish(conds + cs, events + ev + self._events(e), env, e, paths)
+            return
+        if isinstance(st, ast.Raise):
+            return
+        if isinstance(st, ast.If):
+            for cs, ev, t in self._expr_alts(st.test, env, fn):
+                v = _fold(t)
+                for pol, body in ((True, st.body), (False, st.orelse)):
+                    if v is not None and v != pol:
+                        continue
+                    sub = []
+                    self._block(list(body), dict(env), conds + cs + ([] if v is not None else [(t, pol)]), events + ev, sub, fn)
+                    for c2, e2, env2, r2 in sub:
+                        if r2 == "open":
+                            self._block(rest, env2, c2, e2, paths, fn)
+                        else:
+                            self._finish(c2, e2, env2, r2, paths)
+            return
+        if isinstance(st, (ast.For, ast.While)):
+            if any(isinstance(n, (ast.Return, ast.Yield)) for n in ast.walk(st)):
+                raise _NoPaths("a loop returns: paths through loops are not followed")
+            ev = [c for n in ast.walk(st) for c in self._events(n)] if False else []
+            if any(self._events(n) for n in ast.walk(st)):
+                raise _NoPaths("a reduction inside a loop")
+            env = dict(env)
+            for n in ast.walk(st):
+                if isinstance(n, ast.Name) and isinstance(n.ctx, ast.Store):
+                    env.pop(n.id, None)
+                elif isinstance(n, (ast.Subscript, ast.Attribute)) and isinstance(n.ctx, ast.Store):
+                    b_ = n
+                    while isinstance(b_, (ast.Subscript, ast.Attribute)):
+                        b_ = b_.value
+                    if isinstance(b_, ast.Name):
+                        env.pop(b_.id, None)
+            self._block(rest, env, conds, events + ev, paths, fn)
+            return
+        if isinstance(st, ast.Assign) and len(st.targets) == 1 and isinstance(st.targets[0], ast.Name):
+            for cs, ev, e in self._expr_alts(st.value, env, fn):
+                env2 = dict(env)
+                env2[st.targets[0].id] = e
+                self._block(rest, env2, conds + cs, events + ev + self._events(e), paths, fn)
+            return
+        if isinstance(st, (ast.Assign, ast.AugAssign, ast.AnnAssign, ast.Expr, ast.Assert, ast.Pass, ast.Import, ast.ImportFrom)):
+            env = dict(env)
+            for n in ast.walk(st):
+                if isinstance(n, ast.Name) and isinstance(n.ctx, ast.Store):
+                    env.pop(n.id, None)
+            ev = []
+            if not isinstance(st, ast.Assert):
+                for f_ in ("value",):
+                    v_ = getattr(st, f_, None)
+                    if v_ is not None:
+                        ev = self._events(_subst(v_, env))
+            self._block(rest, env, conds, events + ev, paths, fn)
+            return
+        raise _NoPaths(f"statement `{src(st)[:50]}` not followed")
+
+
+def _latch_flag(fn):
+    """the ownership flag of the loop over the fixed axes: a name assigned a constant before the loop, assigned inside it and
+    read after it -> (name, initial constant, loop, in-loop assignments, polarity-ok) or None"""
+    for loop in [n for n in ast.walk(fn) if isinstance(n, ast.For)]:
+        if not any(isinstance(n, ast.Subscript) and isinstance(n.ctx, ast.Store) for n in ast.walk(loop)):
+            continue
+        inside = {}
+        for n in ast.walk(loop):
+            if isinstance(n, ast.Assign) and len(n.targets) == 1 and isinstance(n.targets[0], ast.Name):
+                inside.setdefault(n.targets[0].id, []).append(n)
+            elif isinstance(n, ast.AugAssign) and isinstance(n.target, ast.Name):
+                inside.setdefault(n.target.id, []).append(n)
+        blk = None
+        p = parent(loop)
+        for f_ in ("body", "orelse"):
+            if isinstance(getattr(p, f_, None), list) and loop in getattr(p, f_):
+                blk = getattr(p, f_)
+        if blk is None:
+            continue
+        k = blk.index(loop)
+        after = {n.id for s_ in blk[k + 1:] for n in ast.walk(s_) if isinstance(n, ast.Name) and isinstance(n.ctx, ast.Load)}
+        for name, asg in inside.items():
+            pre = [s_ for s_ in blk[:k] if isinstance(s_, ast.Assign) and len(s_.targets) == 1 and src(s_.targets[0]) == name]
+            if name in after and pre and isinstance(pre[-1].value, ast.Constant) and isinstance(pre[-1].value.value, bool):
+                return name, pre[-1].value.value, loop, asg
+    return None
+
+
+def _cmp_atoms(t, env):
+    """conjunction of comparisons -> list of (left src, op class, right src), chained comparisons split; None if not of that form"""
+    from ..resolve import expand
+    t = expand(t, env)
+    parts = t.values if isinstance(t, ast.BoolOp) and isinstance(t.op, ast.And) else [t]
+    out = []
+    for p_ in parts:
+        if not isinstance(p_, ast.Compare):
+            return None
+        l = p_.left
+        for op, r in zip(p_.ops, p_.comparators):
+            out.append((src(l), type(op), src(r)))
+            l = r
+    return out
+
+
+_FLIP = {ast.Lt: ast.Gt, ast.Gt: ast.Lt, ast.LtE: ast.GtE, ast.GtE: ast.LtE, ast.Eq: ast.Eq, ast.NotEq: ast.NotEq}
+
+
+def _slice_index_rule(chk, m, body_fn, q):
+    """inside the loop over (axis number, fixed global index): the axis carrying the dimension, the ownership test
+    start <= fix < end on that axis, and the local index fix - start -> (verdict, why, name of the index list)"""
+    from ..resolve import inline_locals, expand
+    env = {k: v for k, v in inline_locals(body_fn).items() if isinstance(v, (ast.Subscript, ast.Attribute, ast.BinOp, ast.Name))}
+    loops = [n for n in ast.walk(body_fn) if isinstance(n, ast.For) and isinstance(n.target, ast.Tuple) and len(n.target.elts) == 2
+             and all(isinstance(x, ast.Name) for x in n.target.elts)]
+    loops = [l for l in loops if any(isinstance(n, ast.Subscript) and isinstance(n.ctx, ast.Store) for n in ast.walk(l))]
+    if len(loops) != 1:
+        return None, "the loop over the (axis, fixed index) pairs was not found", None
+    loop = loops[0]
+    targets = [x.id for x in loop.target.elts]
+    stores = [n for n in ast.walk(loop) if isinstance(n, ast.Assign) and len(n.targets) == 1 and isinstance(n.targets[0], ast.Subscript)
+              and isinstance(n.targets[0].value, ast.Name)]
+    if len(stores) != 1:
+        return None, f"{len(stores)} stores into an index list in the loop", None
+    st = stores[0]
+    idxname = st.targets[0].value.id
+    De = expand(st.targets[0].slice, env)
+    D = src(De)
+    ax = None
+    if isinstance(De, ast.Subscript) and src(De.value) == "self._layout.inv_dims_order" and isinstance(De.slice, ast.Name) and \
+            De.slice.id in targets:
+        ax = De.slice.id
+    elif isinstance(De, ast.Name) and De.id in targets:
+        return False, (f"`{src(st)[:60]}`: the list is indexed by `{D}`, which is a dimension number: the axis that carries it in this "
+                       f"layout is self._layout.inv_dims_order[{D}]"), idxname
+    elif isinstance(De, ast.Subscript) and src(De.value) == "self._layout.dims_order" and isinstance(De.slice, ast.Name) and \
+            De.slice.id in targets:
+        return False, (f"`{src(st)[:60]}`: the list is indexed by `{D}`: dims_order maps an axis to its dimension, the axis carrying "
+                       f"dimension {De.slice.id} is self._layout.inv_dims_order[{De.slice.id}]"), idxname
+    else:
+        return None, f"index position `{D}` not recognised", idxname
+    fix = [t for t in targets if t != ax][0]
+    # which parameter feeds which loop name
+    it = loop.iter
+    if isinstance(it, ast.Call) and src(it.func) == "zip" and len(it.args) == 2:
+        def base(e):
+            return src(e.args[0]) if isinstance(e, ast.Call) and src(e.func) in ("np.atleast_1d", "np.array", "list", "tuple") and e.args else src(e)
+        feeds = dict(zip(targets, (base(it.args[0]), base(it.args[1]))))
+        if (feeds[ax], feeds[fix]) == ("fixValue", "axis"):
+            return False, (f"`{src(loop)[:80]}`: the fixed values are used as axis numbers and the axis numbers as fixed indices "
+                           "(the two sequences are paired with the wrong loop names)"), idxname
+        if (feeds[ax], feeds[fix]) != ("axis", "fixValue"):
+            return None, f"the sequences `{src(it)[:60]}` the loop runs over are not the parameters axis and fixValue", idxname
+    else:
+        return None, f"loop over `{src(it)[:60]}` not recognised", idxname
+    v = st.value
+    if isinstance(v, ast.Tuple) and len(v.elts) == 1:
+        v = v.elts[0]
+    V = src(expand(v, env))
+    startD = f"self._layout.starts[{D}]"
+    endD = f"self._layout.ends[{D}]"
+    if V != f"{fix} - {startD}":
+        if V == fix:
+            return False, (f"`{src(st)[:60]}` uses the global index `{fix}` as a local index: on every process whose block does not start "
+                           "at 0 another point (or none) is read"), idxname
+        if V.startswith(f"{fix} - self._layout.starts[") or V == f"{fix} - self._layout.starts[{ax}]":
+            return False, f"`{src(st)[:60]}` subtracts the start of another axis than the one indexed ({D})", idxname
+        return None, f"stored local index `{V}` not recognised", idxname
+    # ownership test guarding the store
+    gs = [(t, pol) for t, pol, k in guards_of(st, stop=loop) if k == "if"]
+    if len(gs) != 1 or not gs[0][1]:
+        return None, "the test guarding the store is not a single `if`", idxname
+    atoms = _cmp_atoms(gs[0][0], env)
+    if atoms is None:
+        return None, f"ownership test `{src(gs[0][0])[:60]}` not recognised", idxname
+    norm = set()
+    for l, op, r in atoms:
+        if r == fix and op in _FLIP:
+            l, op, r = r, _FLIP[op], l
+        norm.add((l, op, r))
+    want = {(fix, ast.GtE, startD), (fix, ast.Lt, endD)}
+    if norm == want:
+        return True, ("the fixed global index of dimension ax is looked up on the axis carrying ax, tested against [start, end) of that "
+                      "axis and converted to a local index with that axis' start"), idxname
+    if {(l, r) for l, _, r in norm} == {(l, r) for l, _, r in want} and all(op in (ast.Lt, ast.LtE, ast.Gt, ast.GtE) for _, op, _ in norm):
+        return False, (f"ownership test `{src(gs[0][0])[:70]}` is not `start <= {fix} < end`: an index on a block boundary is assigned to "
+                       "no process or to two (out-of-range local index / value taken from the neighbouring block)"), idxname
+    return None, f"ownership test `{src(gs[0][0])[:60]}` not recognised", idxname
 
 
 def extrema(chk):
     from .. import lints
-    for m, neutral, op, red in (("getMin", "np.inf", "MPI.MIN", "np.amin"), ("getMax", "-np.inf", "MPI.MAX", "np.amax")):
+    gmod = chk.mod(U.GRID)
+    methods = gmod.methods("Grid")
+    for m, neutral, op, red in (("getMin", "np.inf", "MPI.MIN", "amin"), ("getMax", "-np.inf", "MPI.MAX", "amax")):
         fn = chk.func(U.GRID, f"Grid.{m}")
+        q = f"Grid.{m}"
+        # the method together with the helpers of the class it calls on self
+        group, todo = [fn], [fn]
+        while todo:
+            f_ = todo.pop()
+            for c in ast.walk(f_):
+                if isinstance(c, ast.Call) and isinstance(c.func, ast.Attribute) and src(c.func.value) == "self" and \
+                        c.func.attr in methods and methods[c.func.attr] not in group and not c.func.attr.startswith("get"):
+                    group.append(methods[c.func.attr])
+                    todo.append(methods[c.func.attr])
+        for g in group[1:]:
+            chk.functions.add(f"{U.GRID}:Grid.{g.name}")
         # a query: nothing reachable from the grid is modified, so the answer does not depend on earlier requests
-        muts = lints.shared_state_mutations(fn, lambda s_: s_.startswith("self."))
+        muts = [x for g in group for x in lints.shared_state_mutations(g, lambda s_: s_.startswith("self."))]
         chk.ob("E7-query-purity", muts[0][0] if muts else fn, f"Grid.{m} modifies nothing of the grid", not muts,
                "the slice index is built in a fresh local list" if not muts else "; ".join(d for _, d in muts)[:300] +
                " - the index list is kept by the grid: an axis fixed by an earlier request stays fixed in later ones, which then report "
-               "the extremum of the intersection of the slices", file=U.GRID, func=f"Grid.{m}")
-        calls = [c for c in ast.walk(fn) if isinstance(c, ast.Call) and isinstance(c.func, ast.Attribute) and c.func.attr == "reduce"]
-        bad = []
-        unknown = []
-        for c in calls:
-            a0 = src(c.args[0]).replace(" ", "")
-            opk = [src(k.value) for k in c.keywords if k.arg == "op"]
-            if not opk or opk[0] != op:
-                bad.append(f"`{src(c)[:60]}` does not reduce with {op}")
-            gs = [(src(t).replace(" ", "").replace("(", "").replace(")", ""), pol) for t, pol, k in guards_of(c)]
-            owns = True
-            for gtxt, pol in gs:
-                if gtxt == "self._f.size==0" and pol:
-                    owns = False
-                if gtxt == "hasData" and not pol:
-                    owns = False
-            literal = a0 in ("np.inf", "-np.inf", "0", "0.0", "np.nan", "None") or a0.lstrip("-").replace(".", "").isdigit()
-            if owns:
-                if not (a0.startswith(red + "(np.real(self._f")):
-                    if literal or a0.startswith(("np.amin(", "np.amax(", "np.min(", "np.max(")):
-                        bad.append(f"owning arm contributes `{a0}` instead of {red}(real(local values))")
+               "the extremum of the intersection of the slices", file=U.GRID, func=q)
+        # ---- ownership flag: latched as soon as one fixed index is outside the local block
+        flag = None
+        okl, whyl = None, "no ownership flag (constant before the loop over the fixed axes, changed inside, read after) was found"
+        for g in group:
+            fl = _latch_flag(g)
+            if fl:
+                flag = fl
+                name, c0, loop, asg = fl
+                wrong = None
+                for a_ in asg:
+                    v_ = a_.value
+                    if isinstance(a_, ast.AugAssign):
+                        if not isinstance(a_.op, (ast.BitAnd if c0 else ast.BitOr)):
+                            wrong = a_
+                    elif isinstance(v_, ast.Constant) and v_.value is (not c0):
+                        continue
+                    elif isinstance(v_, ast.BoolOp) and isinstance(v_.op, ast.And if c0 else ast.Or) and \
+                            any(isinstance(x, ast.Name) and x.id == name for x in v_.values):
+                        continue
                     else:
-                        unknown.append(a0)
-            else:
-                if a0 != neutral:
-                    if literal:
-                        bad.append(f"non-owning arm contributes `{a0}` instead of the neutral element {neutral}")
+                        wrong = a_
+                if wrong is None:
+                    okl, whyl = True, (f"{name} starts {c0} and can only be switched to {not c0} inside the loop over fixed axes: a rank owns "
+                                       "the slice iff it owns every fixed index")
+                else:
+                    okl, whyl = False, (f"`{src(wrong)[:70]}` re-assigns {name} on every pass of the loop over the fixed axes, so only the "
+                                        "last axis counts: a rank that misses an earlier fixed index but owns the last one contributes "
+                                        "values from outside the slice")
+                break
+        chk.ob("E7-ownership-latch", flag[2] if flag else fn, f"Grid.{m}: ownership flag", okl, whyl, file=U.GRID, func=q)
+        # ---- fixed index -> local index
+        oki, whyi, idxname = None, "the loop over the fixed axes was not found", None
+        for g in group:
+            r_ = _slice_index_rule(chk, m, g, q)
+            if r_[0] is not None or r_[2] is not None or g is group[-1]:
+                oki, whyi, idxname = r_
+                if r_[0] is not None or r_[2] is not None:
+                    break
+        chk.ob("E7-slice-index", fn, f"Grid.{m}: fixed index -> local index", oki, whyi, file=U.GRID, func=q)
+        # ---- what every path hands to the reduction
+        try:
+            paths = _PathWalk({k: v for k, v in methods.items()}).run(fn)
+        except _NoPaths as e:
+            chk.ob("E7-neutral-element", fn, f"Grid.{m}: contributions", None, f"paths of the method not followed: {e}", file=U.GRID, func=q)
+            continue
+        bad, unknown, kinds = [], [], set()
+        for conds, events, ret in paths:
+            if not events:
+                continue
+            owns, whole, fixed, why_not, unrec = True, False, False, "", []
+            pnames = {a.arg for a in fn.args.args}
+
+            def atoms(t, pol):
+                """(expression, polarity) facts that follow from `t` being `pol`"""
+                if isinstance(t, ast.UnaryOp) and isinstance(t.op, ast.Not):
+                    return atoms(t.operand, not pol)
+                if isinstance(t, ast.BoolOp) and (isinstance(t.op, ast.And) == pol):
+                    return [x for v_ in t.values for x in atoms(v_, pol)]
+                return [(t, pol)]
+            for t0, pol0 in conds:
+                for t, pol in atoms(t0, pol0):
+                    ts = src(t)
+                    is_none = isinstance(t, ast.Compare) and len(t.ops) == 1 and isinstance(t.ops[0], (ast.Is, ast.IsNot)) and \
+                        src(t.comparators[0]) == "None" and isinstance(t.left, ast.Name) and t.left.id in pnames
+                    if ts in ("self._f.size == 0", "0 == self._f.size", "self._f.size < 1", "self._f.size <= 0"):
+                        if pol:
+                            owns, why_not = False, "empty"
+                    elif ts in ("self._f.size != 0", "self._f.size > 0", "self._f.size", "0 < self._f.size", "self._f.size >= 1"):
+                        if not pol:
+                            owns, why_not = False, "empty"
+                    elif flag and isinstance(t, ast.Name) and t.id == flag[0]:
+                        if pol != flag[1]:
+                            owns, why_not = False, "flag"
+                    elif is_none:
+                        if t.left.id in ("axis", "fixValue"):
+                            if pol == isinstance(t.ops[0], ast.Is):
+                                whole = True
+                            else:
+                                fixed = True
+                    elif isinstance(t, ast.BoolOp) and all(isinstance(x, ast.Compare) and isinstance(x.ops[0], (ast.Is, ast.IsNot)) and
+                                                           src(x.comparators[0]) == "None" and src(x.left) in ("axis", "fixValue") for x in t.values):
+                        # a disjunction of `is None` facts that holds / a conjunction that fails: some index is fixed
+                        kinds_ = {isinstance(x.ops[0], ast.Is) for x in t.values}
+                        if len(kinds_) == 1 and (kinds_ == {True}) != pol:
+                            fixed = True
+                        elif len(kinds_) == 1 and (kinds_ == {False}) and pol:
+                            fixed = True
+                        else:
+                            unrec.append(ts)
                     else:
-                        unknown.append(a0)
-        okn = False if bad else (True if len(calls) == 4 and not unknown else None)
-        chk.ob("E7-neutral-element", fn, f"Grid.{m}: contributions of the {len(calls)} arms", okn,
+                        unrec.append(ts)
+            for c in events:
+                a0 = c.args[0] if c.args else next((k.value for k in c.keywords if k.arg in ("sendobj", "sendbuf")), None)
+                opk = [src(k.value) for k in c.keywords if k.arg == "op"] or ([src(c.args[1])] if len(c.args) > 1 else [])
+                if not opk or opk[0] != op:
+                    bad.append(f"`{src(c)[:60]}` does not reduce with {op}" + ("" if opk else " (the default is a sum)"))
+                if a0 is None:
+                    unknown.append(src(c)[:40])
+                    continue
+                a0s = src(a0)
+                literal = a0s in ("np.inf", "-np.inf", "np.nan", "None") or (isinstance(a0, ast.Constant)) or \
+                    (isinstance(a0, ast.UnaryOp) and isinstance(a0.operand, ast.Constant))
+                # red(np.real(self._f)) / red(np.real(self._f[tuple(idx)]))
+                inner, fname = None, None
+                if isinstance(a0, ast.Call) and src(a0.func) in ("np.amin", "np.amax", "np.min", "np.max", "min", "max") and len(a0.args) == 1:
+                    fname, inner = src(a0.func).split(".")[-1], a0.args[0]
+                elif isinstance(a0, ast.Call) and isinstance(a0.func, ast.Attribute) and a0.func.attr in ("min", "max") and not a0.args:
+                    fname, inner = a0.func.attr, a0.func.value
+                if fname is not None:
+                    fname = {"min": "amin", "max": "amax"}.get(fname, fname)
+                sel = None
+                if inner is not None and isinstance(inner, ast.Call) and src(inner.func) == "np.real" and len(inner.args) == 1:
+                    x = inner.args[0]
+                    if src(x) == "self._f":
+                        sel = "all"
+                    elif isinstance(x, ast.Subscript) and src(x.value) == "self._f":
+                        sx = src(x.slice)
+                        sel = "slice" if idxname and sx in (f"tuple({idxname})", idxname) else "other"
+                if unrec:
+                    unknown.append(f"`{a0s[:50]}` under the unrecognised condition(s) {unrec[:2]}")
+                elif owns:
+                    if sel == "slice" and fname == red and not whole:
+                        kinds.add("own-slice")
+                    elif sel == "all" and fname == red and whole:
+                        kinds.add("own-all")
+                    elif sel == "all" and fname == red and not fixed:
+                        unknown.append(f"`{a0s[:50]}` (not known whether indices are fixed on this path)")
+                    elif literal:
+                        bad.append(f"a process that owns part of the requested points contributes `{a0s}` instead of {red}(real(local values))")
+                    elif fname is not None and fname != red and sel in ("all", "slice"):
+                        bad.append(f"the local contribution is `{a0s[:60]}`: {fname} instead of {red}")
+                    elif sel == "all" and not whole and fname == red:
+                        bad.append(f"with fixed indices requested the process contributes `{a0s[:60]}`, the extremum of its whole block "
+                                   "instead of the requested slice")
+                    else:
+                        unknown.append(a0s[:60])
+                else:
+                    if a0s == neutral:
+                        kinds.add("neutral-" + why_not)
+                    elif literal:
+                        bad.append(f"a process without data of the slice contributes `{a0s}` instead of the neutral element {neutral} of {op}")
+                    elif why_not == "flag" and sel in ("all", "slice", "other"):
+                        bad.append(f"a process that does not own the fixed indices still contributes `{a0s[:60]}`: values from outside "
+                                   "the slice enter the extremum")
+                    else:
+                        unknown.append(a0s[:60])
+        need = {"neutral-empty", "neutral-flag"}
+        okn = False if bad else None if unknown or not (need <= kinds) or not (kinds & {"own-all", "own-slice"}) else True
+        chk.ob("E7-neutral-element", fn, f"Grid.{m}: contributions on every path", okn,
                f"ranks that own part of the slice contribute their local extremum, all others the neutral element {neutral}" if okn
-               else ("; ".join(bad) or f"{len(calls)} reduce arm(s) found; contributions {unknown or ''} not recognised"), file=U.GRID, func=f"Grid.{m}")
-        # ownership flag: latched False as soon as one fixed index is outside the local block
-        inits = [n for n in ast.walk(fn) if isinstance(n, ast.Assign) and src(n.targets[0]) == "hasData"]
-        loop = [n for n in ast.walk(fn) if isinstance(n, ast.For)]
-        in_loop = [n for n in inits if loop and any(n in ast.walk(l) for l in loop)]
-        pre = [n for n in inits if n not in in_loop]
-        okl = len(pre) == 1 and src(pre[0].value) == "True" and in_loop and all(src(n.value) == "False" for n in in_loop)
-        if not inits:
-            okl = None
-        elif not okl and not (in_loop and any(src(n.value) != "False" for n in in_loop)):
-            okl = None
-        chk.ob("E7-ownership-latch", fn, f"Grid.{m}: hasData", okl,
-               "hasData starts True and can only be cleared inside the loop over fixed axes: a rank owns the slice iff it owns every fixed index"
-               if okl else "hasData is re-assigned from the last fixed axis only: a rank that misses an earlier fixed index but owns the "
-               "last one contributes values from outside the slice", file=U.GRID, func=f"Grid.{m}")
-        t = src(fn).replace(" ", "").replace("\n", ";")
-        oki = "dim=self._layout.inv_dims_order[ax]" in t and "idx[dim]=(fix-self._layout.starts[dim],)" in t and \
-            "if(fix>=self._layout.starts[dim]andfix<self._layout.ends[dim])" in t.replace("iffix>=", "if(fix>=").replace("ends[dim]:", "ends[dim]):")
-        chk.pat("E7-slice-index", fn, f"Grid.{m}: fixed index -> local index", oki,
-                "the fixed global index of dimension ax is looked up on the axis carrying ax and converted to a local index with that axis' start",
-                file=U.GRID, func=f"Grid.{m}")
+               else ("; ".join(dict.fromkeys(bad)) or (f"contributions {sorted(set(unknown))} not recognised" if unknown else
+                                                        f"path kinds found: {sorted(kinds)}; expected an owning path and neutral "
+                                                        "contributions for an empty block and for a slice owned elsewhere")),
+               file=U.GRID, func=q)
 
 
 def run(chk):
     chk.explanation = (
-        "Engine C on the four diagnostic constructors: local weights are the [start:end) windows of the global trapezoid weights "
-        "of r and v taken on the axes carrying r and v, and the flat (C-order) fill of the (r,v) outer product distinguishes the "
-        "two axis orders; formula conformance of trapezoid weights, r Jacobian, dq dz (and v^2/2) and of the four integrands, "
-        "agreeing across the sibling classes; rows/ops/arrays/column order of DiagnosticCollector and sqrt only after reduction; "
-        "neutral elements, ownership latch and index conversion of Grid.getMin/getMax. The slot<->step relation of the driver's "
+        "Engine W (abstract interpretation of the four diagnostic constructors, helper functions followed): self._factor1 is a "
+        "separable tensor whose factor on the axis carrying r is the [start:end) block of (trapezoid weight x r) of the global r grid "
+        "and whose factor on the axis carrying v is the block of the trapezoid weight (x v^2 for the energy), for both orders of the "
+        "two axes and for the 3-D potential; self._factor2 = dq dz (x 1/2); engine C types the named windows; the value returned by "
+        "each norm method as a formula of f = a + i b, the weights and the volume factor; the coordinate arrays are only read; "
+        "DiagnosticCollector: classes/layouts/arguments of the eight rows, reduction op and result array per row, square roots only "
+        "after the sums, printed column order; Grid.getMin/getMax: what every symbolic path (helpers followed) hands to the reduction, "
+        "ownership latch, fixed global index -> axis and local index, query purity. The slot<->step relation of the driver's "
         "printing and the analytic volume factors are not decided.")
+    chk.assumptions += ["theta and z grids are uniform (x_d(k) = a_d + k h_d): the rectangle rule's spacing may be taken between any two "
+                        "neighbouring points", "1 <= number of points per block; at least 3 points in r and v"]
     chk.in_file(U.NORMS)
     weight_windows(chk)
-    weight_formulas(chk)
+    weight_tensor(chk)
+    integrands(chk)
+    coordinates_read_only(chk)
     collector(chk)
     extrema(chk)
-    chk.floor("C-window", 12)
-    chk.floor("C-axis-placement", 10)
-    chk.floor("F9-", 18)
+    chk.floor("C-window", 2)
+    chk.floor("C-axis-placement", 5)
+    chk.floor("F9-", 12)
+    chk.floor("G2-", 2)
     chk.floor("E6-", 5)
     chk.floor("E7-", 6)
